@@ -1,30 +1,48 @@
 import MmtkModel.Model.SideMetaSearch
 import MmtkModel.Props.C21
+import MmtkModel.Lemmas.SideSearch
+import MmtkModel.Lemmas.SideFind
 /-!
 # C22 — Side-metadata search and scan agree with a naive scan
 
-Status: **partial**.  Proved here: the bit-selection lemmas of the inner loops (`ctz_spec`,
-`hiBit_spec`, `rangeMask` and `findFirstBit_spec` / `findLastBit_spec`), the exact
-characterisation of the one case in which the real fast and naive backward searches disagree on
-inputs in the property's scope (`findPrev_own_region_defect`, with a `decide` witness), the agreement
-of the quick-check case otherwise (`findPrev_own_region_partial`, `findNext_own_region_partial`),
-and the `decide`-checked counter-models outside the property's scope (no `MapConsistent`; region-
-unaligned scan end).  The top-level equivalences are stated below in comments; they are tied to
-the code by the exact differential of all three variants (fast / naive / public with the debug
-build's own `assert_eq!(fast, naive)`) and the independent naive-scan oracle of `checks/C22.py`.
+Status: **proved** (all five top-level statements, for a general `MapEnv`).
 
-Full statements (not proved here):
+Top-level theorems (this file; abstract-level lemmas in `Lemmas/SideSearch.lean`, `Lemmas/SideFind.lean`):
 
-* `findPrev_fast_eq_simple` : `s.ok → s.logRegion ≤ log2 gran → ByteMem m → MapConsistent env s m I →
-  alignDown a R ≥ a - limit + 1 ∨ load s m a = 0 → findPrevFastOld env s m a limit = findPrevSimple env s m a limit`
-  where `I` = regions `⌊(a-limit+1)/R⌋ … ⌊a/R⌋`, `MapConsistent` = (data mapped → metadata mapped) ∧
-  (data unmapped at `r` → every readable field at or below `r` in `I` is zero).
-* `findNext_fast_eq_simple` : same with `I` = regions `⌊a/R⌋ … ⌈(a+limit)/R⌉-1`, no side condition.
-* `findPrev_spec` : the result is the greatest region start `x` with `a - limit < x ≤ ⌊a⌋`, field ≠ 0 and
-  no unmapped data region in `(x, a]`.
-* `scan_fast_eq_naive`, `scan_spec` : for region-aligned `start ≤ end` and a 1-bit spec,
-  `scanFast s m start end = (regions of [start,end) with a non-zero field, ascending, once each)`
-  `= scanSimple … start end`.
+* scan — `scanFast_eq_scanSpec` (any `start ≤ end`), `scan_fast_eq_naive` (`scanSimple … = some (scanFast …)`),
+  `scan_spec` (membership + strictly ascending), `scan_public_spec` (public entry, every field width).
+  Hypotheses: `s.ok`, 1-bit spec (for the fast path), `ByteMem m`, region-aligned `start ≤ end < 2^64`, and for
+  the naive version in a debug build the visited region starts mapped.
+* forward search — `findNext_fast_eq_simple`, `findNext_spec`, `findNext_public`.
+* backward search (this tree's `findPrevFast`, whose quick check applies the limit) — `findPrev_fast_eq_simple`,
+  `findPrev_spec`, `findPrev_public`; for the pinned `findPrevFastOld`: `findPrevOld_fast_eq_simple` (with the
+  side condition `alignDown a R ≥ a - limit + 1 ∨ load s m a = 0`) and, on its complement,
+  `findPrev_own_region_defect` (fast ≠ naive, with a `decide` witness).
+
+Hypotheses of the search theorems (each set has an `example` with a non-trivial instance: an unmapped data
+chunk inside the searched range):
+  `env.ok` (granule = positive multiple of 8, mapped-ness per granule), `2^logRegion ∣ gran`, `s.ok`,
+  `ByteMem m`, table start aligned to the field size (`s.start % 2^(logBits-3) = 0`), `logBits ≤ logRegion` for
+  sub-byte fields (the code computes `log_bytes_in_region - log_num_of_bits` on `usize`), `0 < limit`,
+  `MapConsistent env s m lo hi dir` on the searched regions (`Lemmas/SideFind.lean`: a mapped data region has
+  mapped metadata; at and behind an unmapped data region every readable metadata bit is zero);
+  forward: `0 < s.start`, `alignUp (a+limit) R < 2^64`, and for fast = naive `mapped a ∨ R ≤ a` — the naive loop
+  never asks whether address 0 is mapped (`findNext_region0_witness` shows the model needs it);
+  backward: `0 < a`, `a + 1 < 2^64`, `metaAddr s a < 2^64 - 1` (the loops' caches start at `usize::MAX`).
+
+Proof structure: each range scanner / finder is shown equal to a search on global bit positions
+(`ScanOk`, `fwdSearch`, `bwdSearch`; uses `ctz_spec`, `hiBit_spec`, `findFirstBit_spec`, `findLastBit_spec`);
+`breakBitRange_partition` (C21) composes the ranges; `field_position` / `resData_found` / `metaToData_bit` map
+positions back to regions; under `MapConsistent` the position-level search is the region-level search
+(`fwd_fast_region`, `bwd_fast_region`), which is also what the naive loops compute
+(`findNextSimpleLoop_eq`, `findPrevSimpleLoop_eq`, `scanSimpleLoop_eq`).
+
+Also here: the exact characterisation of the one in-scope disagreement of the pinned code
+(`findPrev_own_region_defect`), the quick-check lemmas (`…_partial`, `…_fixed_…`), and `decide`-checked
+counter-models outside the property's scope (no `MapConsistent`; region-unaligned scan end).
+The theorems are additionally tied to the code by the exact differential of all three variants (fast / naive /
+public with the debug build's own `assert_eq!(fast, naive)`) and the independent naive-scan oracle of
+`checks/C22.py`.
 -/
 namespace Mmtk.SideMeta
 open Mmtk.Mem
@@ -286,5 +304,1378 @@ theorem scan_fast_ne_simple_unaligned_end_witness :
     scanFast s m 64 76 = [64] ∧ scanSimple true env s m 64 76 = some [64, 72] ∧
     scanFast s m 64 80 = [64, 72] ∧ scanSimple true env s m 64 80 = some [64, 72] := by
   decide
+
+/-! # the scans: fast = naive = specification -/
+
+/-- `word & (word - 1)` clears exactly the lowest set bit. -/
+theorem testBit_clear_lowest (w c : Nat) (hc : w.testBit c = true) (hlow : ∀ i, i < c → w.testBit i = false) (i : Nat) :
+    (w &&& (w - 1)).testBit i = (w.testBit i && decide (i ≠ c)) := by
+  have hmod : w % 2 ^ (c + 1) = 2 ^ c := by
+    apply Nat.eq_of_testBit_eq
+    intro j
+    rw [Nat.testBit_mod_two_pow, Nat.testBit_two_pow]
+    by_cases hj : j < c
+    · have : c ≠ j := by omega
+      simp [hlow j hj, this]
+    · by_cases hjc : j = c
+      · subst hjc; simp [hc]
+      · have h1 : ¬ j < c + 1 := by omega
+        have h2 : c ≠ j := by omega
+        simp [h1, h2]
+  have hw : w = 2 ^ (c + 1) * (w / 2 ^ (c + 1)) + 2 ^ c := by
+    have := Nat.div_add_mod w (2 ^ (c + 1)); omega
+  generalize w / 2 ^ (c + 1) = h at hw
+  subst hw
+  have hpos := Nat.two_pow_pos c
+  have hlt : 2 ^ c < 2 ^ (c + 1) := Nat.pow_lt_pow_right (by omega) (by omega)
+  have hw1 : 2 ^ (c + 1) * h + 2 ^ c - 1 = 2 ^ (c + 1) * h + (2 ^ c - 1) := by omega
+  rw [Nat.testBit_and, hw1, Nat.testBit_two_pow_mul_add _ hlt, Nat.testBit_two_pow_mul_add _ (by omega : 2 ^ c - 1 < 2 ^ (c + 1))]
+  by_cases hi : i < c + 1
+  · simp only [hi, if_true, Nat.testBit_two_pow, Nat.testBit_two_pow_sub_one]
+    by_cases e : c = i
+    · subst e; simp
+    · have : ¬ i = c := by omega
+      simp [e]
+  · have : i ≠ c := by omega
+    simp [hi, this]
+
+theorem scanWord_eq (ma N : Nat) (hN : N ≤ 64) : ∀ fuel word k, (∀ i, i < k → word.testBit i = false) →
+    word < 2 ^ N → N ≤ fuel + k →
+    scanWord ma fuel word = ((List.range' k (N - k)).filter (fun i => word.testBit i)).map (fun i => (ma, i)) := by
+  intro fuel
+  induction fuel with
+  | zero =>
+    intro word k _ _ hf
+    have : N - k = 0 := by omega
+    simp [scanWord, this]
+  | succ f ih =>
+    intro word k hlow hlt hf
+    simp only [scanWord]
+    by_cases h0 : word = 0
+    · subst h0; simp
+    · simp only [h0, if_false]
+      have hlt64 : word < 2 ^ 64 := Nat.lt_of_lt_of_le hlt (Nat.pow_le_pow_right (by omega) hN)
+      obtain ⟨hc, hb⟩ := ctz_spec word h0 hlt64
+      generalize ctz word = c at hc hb ⊢
+      have hck : k ≤ c := by
+        apply Nat.le_of_not_lt; intro h; have := hlow c h; rw [this] at hc; cases hc
+      have hcN : c < N := by
+        apply Nat.lt_of_not_le; intro h
+        have := Nat.testBit_lt_two_pow (Nat.lt_of_lt_of_le hlt (Nat.pow_le_pow_right (by omega) h))
+        rw [this] at hc; cases hc
+      have hclr := testBit_clear_lowest word c hc hb
+      have hlow' : ∀ i, i < c + 1 → (word &&& (word - 1)).testBit i = false := by
+        intro i hi; rw [hclr i]
+        by_cases e : i = c
+        · simp [e]
+        · simp [hb i (by omega)]
+      rw [ih (word &&& (word - 1)) (c + 1) hlow' (Nat.lt_of_le_of_lt Nat.and_le_left hlt) (by omega)]
+      have esplit : List.range' k (N - k) = List.range' k (c - k) ++ (c :: List.range' (c + 1) (N - (c + 1))) := by
+        have e1 : N - k = (c - k) + ((N - (c + 1)) + 1) := by omega
+        rw [e1, ← List.range'_append_1, List.range'_succ]
+        have : k + (c - k) = c := by omega
+        rw [this]
+      rw [esplit, List.filter_append, List.filter_cons]
+      have e1 : (List.range' k (c - k)).filter (fun i => word.testBit i) = [] := by
+        apply List.filter_eq_nil_iff.2
+        intro i hi
+        have := List.mem_range'_1.1 hi
+        simp [hb i (by omega)]
+      have e2 : (List.range' (c + 1) (N - (c + 1))).filter (fun i => (word &&& (word - 1)).testBit i) =
+          (List.range' (c + 1) (N - (c + 1))).filter (fun i => word.testBit i) := by
+        apply List.filter_congr
+        intro i hi
+        have := List.mem_range'_1.1 hi
+        rw [hclr i]
+        have : i ≠ c := by omega
+        simp [this]
+      rw [e1, e2, hc]; simp
+
+theorem scanWord_byte_ok (m : Mem) (hm : ByteMem m) (a : Nat) : ScanOk m (8 * a) (8 * a + 8) (scanWord a 8 (m a)) := by
+  rw [scanWord_eq a 8 (by omega) 8 (m a) 0 (fun i hi => by omega) (hm a) (by omega)]
+  have := scanOk_of_bits m a 0 8 (fun i => (m a).testBit i) (by omega) (by omega)
+    (fun i hi => by rw [Nat.add_zero, bitAt_mk m a i hi])
+  simpa using this
+
+theorem pow256_8 : (256 : Nat) ^ 8 = 2 ^ 64 := by decide
+
+theorem scanWord_word_ok (m : Mem) (hm : ByteMem m) (a : Nat) :
+    ScanOk m (8 * a) (8 * a + 64) (scanWord a 64 (readLE m a 8)) := by
+  have hlt : readLE m a 8 < 2 ^ 64 := by rw [← pow256_8]; exact HeaderMeta.readLE_lt m hm a 8
+  rw [scanWord_eq a 64 (by omega) 64 _ 0 (fun i hi => by omega) hlt (by omega)]
+  have := scanOk_of_bits m a 0 64 (fun i => (readLE m a 8).testBit i) (by omega) (by omega)
+    (fun i hi => by
+      rw [testBit_readLE m hm, Nat.add_zero]
+      have h1 : (8 * a + i) / 8 = a + i / 8 := by omega
+      have h2 : (8 * a + i) % 8 = i % 8 := by omega
+      have h3 : i < 8 * 8 := by omega
+      unfold bitAt
+      rw [h1, h2]; simp [h3])
+  simpa using this
+
+
+theorem scanHead_ok (m : Mem) (hm : ByteMem m) (E : Nat) : ∀ fuel cursor, cursor ≤ E →
+    cursor ≤ (scanHead m E fuel cursor).2 ∧ (scanHead m E fuel cursor).2 ≤ E ∧
+    ScanOk m (8 * cursor) (8 * (scanHead m E fuel cursor).2) (scanHead m E fuel cursor).1 := by
+  intro fuel
+  induction fuel with
+  | zero => intro c hc; simp only [scanHead]; exact ⟨Nat.le_refl _, hc, scanOk_nil m _⟩
+  | succ f ih =>
+    intro c hc
+    simp only [scanHead]
+    by_cases h : c < E ∧ c % 8 ≠ 0
+    · rw [if_pos h]
+      obtain ⟨h1, h2, h3⟩ := ih (c + 1) (by omega)
+      rcases hp : scanHead m E f (c + 1) with ⟨l, c'⟩
+      rw [hp] at h1 h2 h3
+      simp only at h1 h2 h3 ⊢
+      refine ⟨by omega, h2, ?_⟩
+      have hb := scanWord_byte_ok m hm c
+      have e : 8 * c + 8 = 8 * (c + 1) := by omega
+      rw [e] at hb
+      exact scanOk_append m (by omega) (by omega) hb h3
+    · rw [if_neg h]
+      exact ⟨Nat.le_refl _, hc, scanOk_nil m _⟩
+
+theorem scanWords_ok (m : Mem) (hm : ByteMem m) (E : Nat) : ∀ fuel cursor, cursor ≤ E → E - cursor < fuel * 8 + 8 →
+    cursor ≤ (scanWords m E fuel cursor).2 ∧ (scanWords m E fuel cursor).2 ≤ E ∧
+    E ≤ (scanWords m E fuel cursor).2 + 8 ∧
+    ScanOk m (8 * cursor) (8 * (scanWords m E fuel cursor).2) (scanWords m E fuel cursor).1 := by
+  intro fuel
+  induction fuel with
+  | zero => intro c hc hf; simp only [scanWords]; exact ⟨Nat.le_refl _, hc, by omega, scanOk_nil m _⟩
+  | succ f ih =>
+    intro c hc hf
+    simp only [scanWords]
+    by_cases h : c + 8 < E
+    · rw [if_pos h]
+      obtain ⟨h1, h2, h3, h4⟩ := ih (c + 8) (by omega) (by omega)
+      rcases hp : scanWords m E f (c + 8) with ⟨l, c'⟩
+      rw [hp] at h1 h2 h3 h4
+      simp only at h1 h2 h3 h4 ⊢
+      refine ⟨by omega, h2, h3, ?_⟩
+      have hb := scanWord_word_ok m hm c
+      have e : 8 * c + 64 = 8 * (c + 8) := by omega
+      rw [e] at hb
+      exact scanOk_append m (by omega) (by omega) hb h4
+    · rw [if_neg h]
+      exact ⟨Nat.le_refl _, hc, by omega, scanOk_nil m _⟩
+
+theorem scanTail_ok (m : Mem) (hm : ByteMem m) (E : Nat) : ∀ fuel cursor, cursor ≤ E → E - cursor ≤ fuel →
+    ScanOk m (8 * cursor) (8 * E) (scanTail m E fuel cursor) := by
+  intro fuel
+  induction fuel with
+  | zero =>
+    intro c hc hf
+    have : c = E := by omega
+    subst this
+    simp only [scanTail]; exact scanOk_nil m _
+  | succ f ih =>
+    intro c hc hf
+    simp only [scanTail]
+    by_cases h : c < E
+    · rw [if_pos h]
+      have hb := scanWord_byte_ok m hm c
+      have e : 8 * c + 8 = 8 * (c + 1) := by omega
+      rw [e] at hb
+      exact scanOk_append m (by omega) (by omega) hb (ih (c + 1) (by omega) (by omega))
+    · rw [if_neg h]
+      have : c = E := by omega
+      subst this
+      exact scanOk_nil m _
+
+/-- **`scan_non_zero_bits_in_metadata_bytes`** reports exactly the set bits of `[8·start, 8·end)`, ascending. -/
+theorem scanBytes_ok (m : Mem) (hm : ByteMem m) (S E : Nat) (h : S ≤ E) : ScanOk m (8 * S) (8 * E) (scanBytes m S E) := by
+  obtain ⟨a1, a2, a3⟩ := scanHead_ok m hm E 8 S h
+  obtain ⟨b1, b2, b3, b4⟩ := scanWords_ok m hm E ((E - S) / 8 + 1) (scanHead m E 8 S).2 a2 (by omega)
+  have c := scanTail_ok m hm E 9 (scanWords m E ((E - S) / 8 + 1) (scanHead m E 8 S).2).2 b2 (by omega)
+  have e : scanBytes m S E = (scanHead m E 8 S).1 ++ (scanWords m E ((E - S) / 8 + 1) (scanHead m E 8 S).2).1 ++
+      scanTail m E 9 (scanWords m E ((E - S) / 8 + 1) (scanHead m E 8 S).2).2 := rfl
+  rw [e]
+  exact scanOk_append m (by omega) (by omega) (scanOk_append m (by omega) (by omega) a3 b4) c
+
+theorem and_two_pow_ne_zero (x k : Nat) : decide (x &&& 2 ^ k ≠ 0) = x.testBit k := by
+  by_cases h : x.testBit k = true
+  · have : (x &&& 2 ^ k).testBit k = true := by rw [Nat.testBit_and, Nat.testBit_two_pow, h]; simp
+    have hne : x &&& 2 ^ k ≠ 0 := by intro c; rw [c] at this; simp at this
+    simp [h, hne]
+  · have hz : x &&& 2 ^ k = 0 := by
+      apply Nat.eq_of_testBit_eq
+      intro j
+      rw [Nat.testBit_and, Nat.testBit_two_pow, Nat.zero_testBit]
+      by_cases e : k = j
+      · subst e; simp [h]
+      · simp [e]
+    simp [h, hz]
+
+/-- **`scan_non_zero_bits_in_metadata_bits`** reports exactly the set bits of `[bs, be)` of its byte, ascending. -/
+theorem scanBits_ok (m : Mem) (_hm : ByteMem m) (a bs be : Nat) (h1 : bs < be) (h2 : be ≤ 8) :
+    ScanOk m (8 * a + bs) (8 * a + be) (scanBits m a bs be) := by
+  unfold scanBits
+  have e0 : (List.range (be - bs)).map (· + bs) = (List.range' 0 (be - bs)).map (fun i => bs + i) := by
+    rw [List.range_eq_range']
+    apply List.map_congr_left; intro i _; omega
+  rw [e0, List.filterMap_map]
+  have e1 : ((fun bit => if (m a &&& ((1 <<< bit) % 256)) ≠ 0 then some (a, bit) else none) ∘ fun i => bs + i) =
+      fun i => if (m a &&& ((1 <<< (bs + i)) % 256)) ≠ 0 then some ((fun i => (a, bs + i)) i) else none := rfl
+  rw [e1, filterMap_ite (fun i => (m a &&& ((1 <<< (bs + i)) % 256)) ≠ 0) (fun i => (a, bs + i))]
+  have := scanOk_of_bits m a bs (be - bs) (fun i => decide ((m a &&& ((1 <<< (bs + i)) % 256)) ≠ 0)) (by omega) (by omega)
+    (fun i hi => by
+      have hlt : bs + i < 8 := by omega
+      have e : 8 * a + bs + i = 8 * a + (bs + i) := by omega
+      rw [e, bitAt_mk m a _ hlt, Nat.one_shiftLeft,
+        Nat.mod_eq_of_lt (Nat.lt_of_lt_of_le (Nat.pow_lt_pow_right (by omega) hlt) (by decide : 2 ^ 8 ≤ 256)),
+        and_two_pow_ne_zero])
+  have e2 : 8 * a + bs + (be - bs) = 8 * a + be := by omega
+  rw [e2] at this
+  exact this
+
+theorem scanRange_ok (m : Mem) (hm : ByteMem m) (r : BBR) (hw : r.wf) : ScanOk m r.lo r.hi (scanRange m r) := by
+  cases r with
+  | bytes s e => exact scanBytes_ok m hm s e (Nat.le_of_lt hw)
+  | bits a bs be => exact scanBits_ok m hm a bs be hw.1 hw.2
+
+
+/-! ## the fast scan -/
+
+theorem scanFast_eq_flat (s : Spec) (m : Mem) (a b : Nat) :
+    scanFast s m a b = ((breakBitRange (metaAddr s a) (lshift s a) (metaAddr s b) (lshift s b) true).flatMap
+      (scanRange m)).map (fun ab => metaToData s ab.1 ab.2) := by
+  unfold scanFast
+  rw [List.map_flatMap]
+  congr 1
+
+/-- **the fast scan computes the specification** — for *any* `start ≤ end` (the regions visited are
+`⌊start/R⌋ … ⌊end/R⌋ − 1`; they are the regions of `[start, end)` when both are region-aligned). -/
+theorem scanFast_eq_scanSpec (s : Spec) (hs : s.ok) (h0 : s.logBits = 0) (m : Mem) (hm : ByteMem m)
+    (dStart dEnd : Nat) (hle : dStart ≤ dEnd) (h64 : dEnd < 2 ^ 64) :
+    scanFast s m dStart dEnd = scanSpec s m dStart dEnd := by
+  have hR := Nat.two_pow_pos s.logRegion
+  obtain ⟨e1, e2, b1, b2, ho⟩ := bulk_interval s hs dStart (dEnd - dStart) (by omega)
+  have eE : dStart + (dEnd - dStart) = dEnd := by omega
+  rw [eE] at e2 b2 ho
+  have ht := breakBitRange_partition _ _ _ _ b1 b2 ho
+  rw [e1, e2] at ht
+  obtain ⟨k1, k2⟩ := scanOk_tiles m (scanRange_ok m hm) ht
+  simp only [Nat.shiftRight_eq_div_pow] at k1 k2
+  have hq : dStart / 2 ^ s.logRegion ≤ dEnd / 2 ^ s.logRegion := Nat.div_le_div_right hle
+  have hq1 : dEnd / 2 ^ s.logRegion * 2 ^ s.logRegion ≤ dEnd := Nat.div_mul_le_self ..
+  rw [scanFast_eq_flat]
+  unfold scanSpec
+  generalize dStart / 2 ^ s.logRegion = q0 at k1 k2 hq ⊢
+  generalize dEnd / 2 ^ s.logRegion = q1 at k1 k2 hq hq1 ⊢
+  generalize (breakBitRange (metaAddr s dStart) (lshift s dStart) (metaAddr s dEnd) (lshift s dEnd) true).flatMap (scanRange m) = l at k1 k2
+  have hfb : ∀ r, fieldBase s r = 8 * s.start + r := by intro r; unfold fieldBase; rw [h0]; simp
+  have step : l.map (fun ab => metaToData s ab.1 ab.2) = (l.map pos).map (fun p => (p - 8 * s.start) * 2 ^ s.logRegion) := by
+    rw [List.map_map]
+    apply List.map_congr_left
+    intro ab hab
+    have hp : pos ab ∈ bitsIn m (fieldBase s q0) (fieldBase s q1) := by
+      rw [← k1]; exact List.mem_map_of_mem hab
+    obtain ⟨p1, p2, _⟩ := (mem_bitsIn m _ _ _).1 hp
+    obtain ⟨p3, _⟩ := k2 ab hab
+    rw [hfb] at p1 p2 p3
+    unfold pos at p1 p2
+    have hst : s.start ≤ ab.1 := by omega
+    have hlt : (ab.1 - s.start) * 8 + ab.2 < q1 := by omega
+    have := Nat.mul_lt_mul_of_pos_right hlt hR
+    rw [metaToData_bit s h0 ab.1 ab.2 (Nat.lt_of_lt_of_le this (by omega))]
+    simp only [Function.comp, pos]
+    congr 1
+    omega
+  rw [step, k1, bits_to_regions s hs h0 m hm _ _ hq (by omega)]
+
+/-- membership in the specification list (region-aligned bounds). -/
+theorem mem_scanSpec (s : Spec) (m : Mem) (dStart dEnd : Nat)
+    (h1 : dStart % 2 ^ s.logRegion = 0) (h2 : dEnd % 2 ^ s.logRegion = 0) (x : Nat) :
+    x ∈ scanSpec s m dStart dEnd ↔ (dStart ≤ x ∧ x < dEnd ∧ x % 2 ^ s.logRegion = 0 ∧ load s m x ≠ 0) := by
+  have hR := Nat.two_pow_pos s.logRegion
+  obtain ⟨q0, rfl⟩ : ∃ q0, dStart = q0 * 2 ^ s.logRegion := ⟨_, (aligned_eq dStart s.logRegion h1).symm⟩
+  obtain ⟨q1, rfl⟩ : ∃ q1, dEnd = q1 * 2 ^ s.logRegion := ⟨_, (aligned_eq dEnd s.logRegion h2).symm⟩
+  unfold scanSpec
+  rw [Nat.mul_div_cancel _ hR, Nat.mul_div_cancel _ hR]
+  simp only [List.mem_filter, List.mem_map, List.mem_range'_1, decide_eq_true_eq]
+  constructor
+  · rintro ⟨⟨r, ⟨a, b⟩, rfl⟩, c⟩
+    exact ⟨Nat.mul_le_mul_right _ a, Nat.mul_lt_mul_of_pos_right (by omega) hR, Nat.mul_mod_left .., c⟩
+  · rintro ⟨a, b, c, d⟩
+    obtain ⟨r, rfl⟩ : ∃ r, x = r * 2 ^ s.logRegion := ⟨_, (aligned_eq x s.logRegion c).symm⟩
+    have a' := Nat.le_of_mul_le_mul_right a hR
+    have b' := Nat.lt_of_mul_lt_mul_right b
+    exact ⟨⟨r, ⟨a', by omega⟩, rfl⟩, d⟩
+
+theorem scanSpec_sorted (s : Spec) (m : Mem) (dStart dEnd : Nat) : (scanSpec s m dStart dEnd).Pairwise (· < ·) := by
+  have hR := Nat.two_pow_pos s.logRegion
+  unfold scanSpec
+  apply List.Pairwise.filter
+  rw [List.pairwise_map]
+  exact (List.pairwise_lt_range' (s := _) (n := _)).imp (fun h => Nat.mul_lt_mul_of_pos_right h hR)
+
+/-- **C22 (scan, fast = naive)**: for a 1-bit spec and region-aligned `start ≤ end` the word-at-a-time
+scan returns exactly what the region-by-region scan returns (whose `debug_assert!` needs the visited
+region starts mapped in a debug build). -/
+theorem scan_fast_eq_naive (debug : Bool) (env : MapEnv) (s : Spec) (hs : s.ok) (h0 : s.logBits = 0)
+    (m : Mem) (hm : ByteMem m) (dStart dEnd : Nat)
+    (h1 : dStart % 2 ^ s.logRegion = 0) (h2 : dEnd % 2 ^ s.logRegion = 0) (hle : dStart ≤ dEnd) (h64 : dEnd < 2 ^ 64)
+    (hmap : debug = true → ∀ x, dStart ≤ x → x < dEnd → x % 2 ^ s.logRegion = 0 → env.mapped x = true) :
+    scanSimple debug env s m dStart dEnd = some (scanFast s m dStart dEnd) := by
+  rw [scanFast_eq_scanSpec s hs h0 m hm dStart dEnd hle h64]
+  exact scanSimple_eq_spec debug env s m dStart dEnd h1 h2 hle hmap
+
+/-- **C22 (scan, specification)**: the fast scan visits exactly the region starts of `[start, end)`
+whose field is non-zero, in strictly ascending order (hence once each). -/
+theorem scan_spec (s : Spec) (hs : s.ok) (h0 : s.logBits = 0) (m : Mem) (hm : ByteMem m) (dStart dEnd : Nat)
+    (h1 : dStart % 2 ^ s.logRegion = 0) (h2 : dEnd % 2 ^ s.logRegion = 0) (hle : dStart ≤ dEnd) (h64 : dEnd < 2 ^ 64) :
+    (∀ x, x ∈ scanFast s m dStart dEnd ↔ (dStart ≤ x ∧ x < dEnd ∧ x % 2 ^ s.logRegion = 0 ∧ load s m x ≠ 0)) ∧
+    (scanFast s m dStart dEnd).Pairwise (· < ·) := by
+  rw [scanFast_eq_scanSpec s hs h0 m hm dStart dEnd hle h64]
+  exact ⟨mem_scanSpec s m dStart dEnd h1 h2, scanSpec_sorted s m dStart dEnd⟩
+
+/-- **C22 (public `scan_non_zero_values`, every field width)**: the result is the specification list. -/
+theorem scan_public_spec (debug : Bool) (env : MapEnv) (s : Spec) (hs : s.ok) (m : Mem) (hm : ByteMem m) (dStart dEnd : Nat)
+    (h1 : dStart % 2 ^ s.logRegion = 0) (h2 : dEnd % 2 ^ s.logRegion = 0) (hle : dStart ≤ dEnd) (h64 : dEnd < 2 ^ 64)
+    (hmap : debug = true → ∀ x, dStart ≤ x → x < dEnd → x % 2 ^ s.logRegion = 0 → env.mapped x = true) :
+    scan debug env s m dStart dEnd = some (scanSpec s m dStart dEnd) ∧
+    (∀ x, x ∈ scanSpec s m dStart dEnd ↔ (dStart ≤ x ∧ x < dEnd ∧ x % 2 ^ s.logRegion = 0 ∧ load s m x ≠ 0)) ∧
+    (scanSpec s m dStart dEnd).Pairwise (· < ·) := by
+  refine ⟨?_, mem_scanSpec s m dStart dEnd h1 h2, scanSpec_sorted s m dStart dEnd⟩
+  unfold scan
+  by_cases h0 : s.logBits = 0
+  · rw [if_pos h0, scanFast_eq_scanSpec s hs h0 m hm dStart dEnd hle h64]
+  · rw [if_neg h0]; exact scanSimple_eq_spec debug env s m dStart dEnd h1 h2 hle hmap
+
+/-- the hypotheses are satisfiable by a non-trivial state: 8-byte regions, bits of regions 8, 9, 17 set. -/
+example : let s : Spec := { start := 1000, logBits := 0, logRegion := 3 }
+    let m : Mem := fun x => if x = 1001 then 3 else if x = 1002 then 2 else 0
+    s.ok ∧ s.logBits = 0 ∧ (64 % 2 ^ s.logRegion = 0) ∧ (160 % 2 ^ s.logRegion = 0) ∧
+    scanFast s m 64 160 = [64, 72, 136] ∧ scanSpec s m 64 160 = [64, 72, 136] := by decide
+
+/-! # the forward search: fast = naive = specification -/
+
+theorem testBit_readLE8 (m : Mem) (hm : ByteMem m) (c i : Nat) (hi : i < 64) :
+    (readLE m c 8).testBit i = bitAt m (8 * c + i) := by
+  rw [testBit_readLE m hm]
+  have h1 : (8 * c + i) / 8 = c + i / 8 := by omega
+  have h2 : (8 * c + i) % 8 = i % 8 := by omega
+  have h3 : i < 8 * 8 := by omega
+  unfold bitAt
+  rw [h1, h2]; simp [h3]
+
+theorem readLE8_lt (m : Mem) (hm : ByteMem m) (c : Nat) : readLE m c 8 < 2 ^ 64 := by
+  rw [← pow256_8]; exact HeaderMeta.readLE_lt m hm c 8
+
+/-- the bytes of an 8-aligned word lie in one granule. -/
+theorem word_block (env : MapEnv) (henv : env.ok) (c i : Nat) (hc : c % 8 = 0) (hi : i < 8) :
+    env.mapped (c + i) = env.mapped c := by
+  apply henv.const
+  obtain ⟨k, hk⟩ := henv.gran8
+  have hkpos : 0 < k := by
+    have := henv.gpos; rw [hk] at this; omega
+  rw [hk, ← Nat.div_div_eq_div_mul, ← Nat.div_div_eq_div_mul]
+  congr 1
+  omega
+
+/-- one in-byte step of the forward search (`find_first_non_zero_bit::<u8>` on a mapped byte). -/
+theorem byte_fwd (env : MapEnv) (m : Mem) (c sb eb : Nat) (hmc : env.mapped c = true) (h1 : sb < eb) (h2 : eb ≤ 8) :
+    match findFirstBit 8 (m c) sb eb with
+    | some bit => bit < 8 ∧ ∀ n, eb - sb ≤ n → fwdSearch env m n (8 * c + sb) = .found (8 * c + bit)
+    | none => fwdSearch env m (eb - sb) (8 * c + sb) = .notFound := by
+  have hspec := findFirstBit_spec 8 (m c) sb eb (Nat.le_of_lt h1) h2 (by omega)
+  cases h : findFirstBit 8 (m c) sb eb with
+  | some bit =>
+    rw [h] at hspec
+    obtain ⟨a1, a2, a3, a4⟩ := hspec
+    refine ⟨by omega, fun n hn => ?_⟩
+    apply fwdSearch_hit env m n _ _ (by omega) (by omega)
+    · intro p p1 p2
+      have e1 : p / 8 = c := by omega
+      refine ⟨by rw [e1]; exact hmc, ?_⟩
+      unfold bitAt; rw [e1]; exact a4 (p % 8) (by omega) (by omega)
+    · have e1 : (8 * c + bit) / 8 = c := by omega
+      rw [e1]; exact hmc
+    · rw [bitAt_mk m c bit (by omega)]; exact a3
+  | none =>
+    rw [h] at hspec
+    apply fwdSearch_clear
+    intro p p1 p2
+    have e1 : p / 8 = c := by omega
+    refine ⟨by rw [e1]; exact hmc, ?_⟩
+    unfold bitAt; rw [e1]; exact hspec (p % 8) (by omega) (by omega)
+
+/-- one word step of the forward search (`find_first_non_zero_bit::<usize>` on an aligned, mapped word). -/
+theorem word_fwd (env : MapEnv) (henv : env.ok) (m : Mem) (hm : ByteMem m) (c : Nat) (hc8 : c % 8 = 0)
+    (hmc : env.mapped c = true) :
+    (readLE m c 8 = 0 → fwdSearch env m 64 (8 * c) = .notFound) ∧
+    (readLE m c 8 ≠ 0 → ∃ bit, findFirstBit 64 (readLE m c 8) 0 64 = some bit ∧ bit < 64 ∧
+      ∀ n, 64 ≤ n → fwdSearch env m n (8 * c) = .found (8 * c + bit)) := by
+  have hmap : ∀ p, 8 * c ≤ p → p < 8 * c + 64 → env.mapped (p / 8) = true := by
+    intro p p1 p2
+    have : p / 8 = c + (p / 8 - c) := by omega
+    rw [this, word_block env henv c _ hc8 (by omega)]; exact hmc
+  have hspec := findFirstBit_spec 64 (readLE m c 8) 0 64 (by omega) (by omega) (by omega)
+  constructor
+  · intro h0
+    apply fwdSearch_clear
+    intro p p1 p2
+    refine ⟨hmap p p1 p2, ?_⟩
+    have := testBit_readLE8 m hm c (p - 8 * c) (by omega)
+    have e : 8 * c + (p - 8 * c) = p := by omega
+    rw [e, h0] at this
+    simpa using this.symm
+  · intro hne
+    cases h : findFirstBit 64 (readLE m c 8) 0 64 with
+    | none =>
+      rw [h] at hspec
+      exfalso; apply hne
+      apply Nat.eq_of_testBit_eq
+      intro i
+      rw [Nat.zero_testBit]
+      by_cases hi : i < 64
+      · exact hspec i (by omega) hi
+      · exact Nat.testBit_lt_two_pow (Nat.lt_of_lt_of_le (readLE8_lt m hm c) (Nat.pow_le_pow_right (by omega) (by omega)))
+    | some bit =>
+      rw [h] at hspec
+      obtain ⟨a1, a2, a3, a4⟩ := hspec
+      refine ⟨bit, rfl, a2, fun n hn => ?_⟩
+      apply fwdSearch_hit env m n _ _ (by omega) (by omega)
+      · intro p p1 p2
+        refine ⟨hmap p p1 (by omega), ?_⟩
+        have := testBit_readLE8 m hm c (p - 8 * c) (by omega)
+        have e : 8 * c + (p - 8 * c) = p := by omega
+        rw [e] at this
+        rw [← this]; exact a4 _ (by omega) (by omega)
+      · exact hmap _ (by omega) (by omega)
+      · rw [← testBit_readLE8 m hm c bit a2]; exact a3
+
+/-- the mapped-chunk check of the forward loops. -/
+theorem chkFwd (env : MapEnv) (henv : env.ok) (cursor grain : Nat)
+    (hc : ∀ x, cursor ≤ x → x ≤ grain → env.mapped x = true) :
+    ((if cursor > grain then (if env.mapped cursor then some (alignUp cursor env.gran - 1) else none) else some grain) = none ∧
+      env.mapped cursor = false) ∨
+    (∃ g', (if cursor > grain then (if env.mapped cursor then some (alignUp cursor env.gran - 1) else none) else some grain) = some g' ∧
+      env.mapped cursor = true ∧ ∀ x, cursor ≤ x → x ≤ g' → env.mapped x = true) := by
+  by_cases hg : cursor > grain
+  · by_cases hmp : env.mapped cursor = true
+    · refine Or.inr ⟨alignUp cursor env.gran - 1, by simp only [hg, hmp, if_true], hmp, fun x a b => ?_⟩
+      rw [alignUp_block env henv _ x a b, hmp]
+    · have hmp' : env.mapped cursor = false := by simpa using hmp
+      exact Or.inl ⟨by simp [hg, hmp'], hmp'⟩
+  · exact Or.inr ⟨grain, by simp only [hg, if_false], hc _ (Nat.le_refl _) (by omega), hc⟩
+
+/-- **`find_first_non_zero_bit_in_metadata_bytes`** is the position-level forward search. -/
+theorem findFirstInBytesLoop_eq (env : MapEnv) (henv : env.ok) (m : Mem) (hm : ByteMem m) (E : Nat) :
+    ∀ fuel cursor grain, cursor ≤ E → E - cursor ≤ fuel →
+    (∀ x, cursor ≤ x → x ≤ grain → env.mapped x = true) →
+    findFirstInBytesLoop env m E fuel cursor grain = (fwdSearch env m (8 * (E - cursor)) (8 * cursor)).toFind := by
+  intro fuel
+  induction fuel with
+  | zero =>
+    intro cursor grain h1 h2 _
+    have : E - cursor = 0 := by omega
+    simp [findFirstInBytesLoop, this, fwdSearch, PosRes.toFind]
+  | succ f ih =>
+    intro cursor grain h1 h2 hc
+    simp only [findFirstInBytesLoop]
+    by_cases hlt : cursor < E
+    · simp only [hlt, not_true_eq_false, if_false]
+      rcases chkFwd env henv cursor grain hc with ⟨e, hmp⟩ | ⟨g', e, hmp, hv⟩
+      · rw [e]
+        have hq : (8 * cursor) / 8 = cursor := by omega
+        rw [fwdSearch_unm env m _ _ (8 * cursor) (Nat.le_refl _) (by omega) (fun p a b => by omega) (by rw [hq]; exact hmp)]
+        rfl
+      · rw [e]
+        by_cases hstep : cursor % 8 = 0 ∧ cursor + 8 ≤ E
+        · simp only [hstep, and_self, if_true]
+          have esplit : 8 * (E - cursor) = 64 + 8 * (E - (cursor + 8)) := by omega
+          have h64 : 64 ≤ 8 * (E - cursor) := by omega
+          have hfuel : E - (cursor + 8) ≤ f := by omega
+          obtain ⟨w0, w1⟩ := word_fwd env henv m hm cursor hstep.1 hmp
+          by_cases hv0 : readLE m cursor 8 = 0
+          · simp only [hv0, ne_eq, not_true_eq_false, if_false]
+            rw [ih (cursor + 8) g' hstep.2 hfuel (fun x a b => hv x (Nat.le_trans (Nat.le_add_right _ _) a) b), esplit, fwdSearch_append, w0 hv0]
+            have e8 : 8 * cursor + 64 = 8 * (cursor + 8) := by omega
+            simp only [PosRes.orElse, e8]
+          · obtain ⟨bit, b1, b2, b3⟩ := w1 hv0
+            simp only [hv0, ne_eq, not_false_eq_true, if_true, b1]
+            rw [b3 _ h64]
+            simp only [PosRes.toFind, Nat.shiftRight_eq_div_pow, Nat.shiftLeft_eq]
+            have e1 : (8 * cursor + bit) / 8 = cursor + bit / 2 ^ 3 := by omega
+            have e2 : (8 * cursor + bit) % 8 = bit - bit / 2 ^ 3 * 2 ^ 3 := by omega
+            rw [e1, e2]
+        · have hs1 : (if cursor % 8 = 0 ∧ cursor + 8 ≤ E then 8 else 1) = 1 := by simp only [hstep, if_false]
+          simp only [hs1, Nat.reduceEqDiff, if_false]
+          have hb := byte_fwd env m cursor 0 8 hmp (by omega) (by omega)
+          have esplit : 8 * (E - cursor) = 8 + 8 * (E - (cursor + 1)) := by omega
+          cases hfb : findFirstBit 8 (m cursor) 0 8 with
+          | some bit =>
+            rw [hfb] at hb
+            obtain ⟨b1, b2⟩ := hb
+            have := b2 (8 * (E - cursor)) (by omega)
+            rw [Nat.add_zero] at this
+            rw [this]
+            simp only [PosRes.toFind]
+            have e1 : (8 * cursor + bit) / 8 = cursor := by omega
+            have e2 : (8 * cursor + bit) % 8 = bit := by omega
+            rw [e1, e2]
+          | none =>
+            rw [hfb] at hb
+            simp only [Nat.add_zero, Nat.sub_zero] at hb
+            rw [ih (cursor + 1) g' (by omega) (by omega) (fun x a b => hv x (by omega) b), esplit, fwdSearch_append, hb]
+            have e8 : 8 * cursor + 8 = 8 * (cursor + 1) := by omega
+            simp only [PosRes.orElse, e8]
+    · have : E - cursor = 0 := by omega
+      simp [hlt, this, fwdSearch, PosRes.toFind]
+
+/-- **`find_first_non_zero_bit_in_metadata_bits`** is the position-level forward search. -/
+theorem findFirstInBits_eq (env : MapEnv) (m : Mem) (a sb eb : Nat) (h1 : sb < eb) (h2 : eb ≤ 8) :
+    findFirstInBits env m a sb eb = (fwdSearch env m (eb - sb) (8 * a + sb)).toFind := by
+  unfold findFirstInBits
+  by_cases hmp : env.mapped a = true
+  · simp only [hmp, Bool.not_true, Bool.false_eq_true, if_false]
+    have hb := byte_fwd env m a sb eb hmp h1 h2
+    cases hfb : findFirstBit 8 (m a) sb eb with
+    | some bit =>
+      rw [hfb] at hb
+      obtain ⟨b1, b2⟩ := hb
+      rw [b2 _ (Nat.le_refl _)]
+      simp only [PosRes.toFind]
+      have e1 : (8 * a + bit) / 8 = a := by omega
+      have e2 : (8 * a + bit) % 8 = bit := by omega
+      rw [e1, e2]
+    | none =>
+      rw [hfb] at hb
+      rw [hb]; rfl
+  · have hmp' : env.mapped a = false := by simpa using hmp
+    simp only [hmp', Bool.not_false, if_true]
+    have hq : (8 * a + sb) / 8 = a := by omega
+    rw [fwdSearch_unm env m _ _ (8 * a + sb) (Nat.le_refl _) (by omega) (fun p x y => by omega) (by rw [hq]; exact hmp')]
+    rfl
+
+
+/-- arithmetic of the bounds of the forward search. -/
+theorem next_bounds (a limit lr : Nat) (hlim : 0 < limit) :
+    alignDown a (2 ^ lr) = a / 2 ^ lr * 2 ^ lr ∧
+    alignUp (a + limit) (2 ^ lr) = (a + limit + 2 ^ lr - 1) / 2 ^ lr * 2 ^ lr ∧
+    a / 2 ^ lr < (a + limit + 2 ^ lr - 1) / 2 ^ lr ∧
+    a + limit ≤ (a + limit + 2 ^ lr - 1) / 2 ^ lr * 2 ^ lr ∧
+    (∀ q, q < (a + limit + 2 ^ lr - 1) / 2 ^ lr → q * 2 ^ lr < a + limit) ∧
+    (a + limit + 2 ^ lr - 1) / 2 ^ lr - a / 2 ^ lr ≤ limit / 2 ^ lr + 2 := by
+  have hR := Nat.two_pow_pos lr
+  generalize 2 ^ lr = R at *
+  have f1 : a / R * R ≤ a := Nat.div_mul_le_self a R
+  have f2 : a < a / R * R + R := Nat.lt_div_mul_add hR
+  have f3 : (a + limit + R - 1) / R * R ≤ a + limit + R - 1 := Nat.div_mul_le_self _ R
+  have f4 : a + limit + R - 1 < (a + limit + R - 1) / R * R + R := Nat.lt_div_mul_add hR
+  have f5 : limit / R * R ≤ limit := Nat.div_mul_le_self _ R
+  have f6 : limit < limit / R * R + R := Nat.lt_div_mul_add hR
+  have g3 : a / R < (a + limit + R - 1) / R := by
+    apply Nat.lt_of_succ_le
+    apply (Nat.le_div_iff_mul_le hR).2
+    rw [Nat.succ_mul]; omega
+  refine ⟨alignDown_eq_div a R, by unfold alignUp; exact alignDown_eq_div _ R, ?_⟩
+  generalize a / R = r0 at *
+  generalize limit / R = L at *
+  generalize (a + limit + R - 1) / R = r1 at *
+  refine ⟨g3, by omega, ?_, ?_⟩
+  · intro q hq
+    have := Nat.mul_le_mul_right R (Nat.succ_le_of_lt hq)
+    rw [Nat.succ_mul] at this
+    omega
+  · have e : (r0 + L + 3) * R = r0 * R + L * R + 3 * R := by rw [Nat.add_mul, Nat.add_mul]
+    have : r1 * R < (r0 + L + 3) * R := by omega
+    have := Nat.lt_of_mul_lt_mul_right this
+    omega
+
+/-- a region lies in one granule. -/
+theorem region_block (env : MapEnv) (henv : env.ok) (lr : Nat) (hgran : 2 ^ lr ∣ env.gran) (a : Nat) :
+    env.mapped (a / 2 ^ lr * 2 ^ lr) = env.mapped a := by
+  apply henv.const
+  obtain ⟨k, hk⟩ := hgran
+  rw [hk, ← Nat.div_div_eq_div_mul, ← Nat.div_div_eq_div_mul, Nat.mul_div_cancel _ (Nat.two_pow_pos lr)]
+
+/-- **the fast forward search is the region-level search** over the regions
+`⌊a/R⌋ … ⌈(a+limit)/R⌉ − 1`. -/
+theorem findNextFast_eq_region (env : MapEnv) (henv : env.ok) (s : Spec) (hs : s.ok)
+    (hal : s.start % 2 ^ (s.logBits - 3) = 0) (hlr : s.logBits < 3 → s.logBits ≤ s.logRegion) (hst : 0 < s.start)
+    (hgran : 2 ^ s.logRegion ∣ env.gran) (m : Mem) (hm : ByteMem m) (a limit : Nat) (hlim : 0 < limit)
+    (hend : alignUp (a + limit) (2 ^ s.logRegion) < 2 ^ 64)
+    (hmc : MapConsistent env s m (a / 2 ^ s.logRegion) ((a + limit + 2 ^ s.logRegion - 1) / 2 ^ s.logRegion) true) :
+    findNextFast env s m a limit =
+      regionFwd env s m ((a + limit + 2 ^ s.logRegion - 1) / 2 ^ s.logRegion - a / 2 ^ s.logRegion) (a / 2 ^ s.logRegion) := by
+  have hR := Nat.two_pow_pos s.logRegion
+  obtain ⟨b1, b2, b3, b4, b5, b6⟩ := next_bounds a limit s.logRegion hlim
+  have hmap0 := region_block env henv s.logRegion hgran a
+  have hr0 : a >>> s.logRegion = a / 2 ^ s.logRegion := Nat.shiftRight_eq_div_pow ..
+  rw [b2] at hend
+  generalize a / 2 ^ s.logRegion = r0 at *
+  generalize (a + limit + 2 ^ s.logRegion - 1) / 2 ^ s.logRegion = r1 at *
+  have ha64 : a < 2 ^ 64 := by omega
+  obtain ⟨n, hn⟩ : ∃ n, r1 - r0 = n + 1 := ⟨r1 - r0 - 1, by omega⟩
+  have hlabs : load s m a = absArr m s r0 := by rw [load_eq_absArr s hs m a ha64, hr0]
+  unfold findNextFast
+  by_cases hmapa : env.mapped a = true
+  · simp only [hmapa, Bool.not_true, Bool.false_eq_true, if_false]
+    by_cases hload : load s m a ≠ 0
+    · rw [if_pos hload, hn]
+      simp only [regionFwd]
+      rw [hlabs] at hload
+      rw [hmap0, hmapa, b1]
+      simp [hload]
+    · rw [if_neg hload, b1, b2]
+      have hle : r0 * 2 ^ s.logRegion ≤ r1 * 2 ^ s.logRegion := Nat.mul_le_mul_right _ (by omega)
+      have eE : r0 * 2 ^ s.logRegion + (r1 * 2 ^ s.logRegion - r0 * 2 ^ s.logRegion) = r1 * 2 ^ s.logRegion := by omega
+      obtain ⟨e1, e2, c1, c2, ho⟩ := bulk_interval s hs (r0 * 2 ^ s.logRegion) (r1 * 2 ^ s.logRegion - r0 * 2 ^ s.logRegion) (by omega)
+      rw [eE] at e2 c2 ho
+      rw [shiftRight_mul_pow] at e1 e2
+      have ht := breakBitRange_partition _ _ _ _ c1 c2 ho
+      rw [e1, e2] at ht
+      rw [findVisit_tiles_fwd env s m _ (fieldBase s r0) ?_ ht (Nat.le_refl _)]
+      · have e : r0 + (r1 - r0) = r1 := by omega
+        rw [fieldBase_sub s r0 r1 (by omega),
+          fwd_fast_region env s hs hal hlr m hm (r1 - r0) r0 (by rw [e]; omega) (by rw [e]; exact hmc)]
+        cases hres : regionFwd env s m (r1 - r0) r0 with
+        | none => rfl
+        | some x =>
+          obtain ⟨r', q1, q2, q3, _⟩ := (regionFwd_some_iff env s m _ _ _).1 hres
+          subst q3
+          have g1 : r' * 2 ^ s.logRegion ≥ r0 * 2 ^ s.logRegion := Nat.mul_le_mul_right _ q1
+          have g2 : r' * 2 ^ s.logRegion < r1 * 2 ^ s.logRegion := Nat.mul_lt_mul_of_pos_right (by omega) hR
+          simp [alignDown_mul, g1, g2]
+      · intro r hw hlo
+        have hfb : 8 * s.start ≤ fieldBase s r0 := by unfold fieldBase; omega
+        cases r with
+        | bytes st en =>
+          simp only [BBR.lo, BBR.hi, BBR.wf] at hw hlo ⊢
+          have e8 : 8 * en - 8 * st = 8 * (en - st) := by omega
+          rw [e8]
+          exact findFirstInBytesLoop_eq env henv m hm en _ st 0 (Nat.le_of_lt hw) (by omega) (fun x a b => by omega)
+        | bits ad bs be =>
+          simp only [BBR.lo, BBR.hi, BBR.wf] at hw hlo ⊢
+          have e8 : 8 * ad + be - (8 * ad + bs) = be - bs := by omega
+          rw [e8]
+          exact findFirstInBits_eq env m ad bs be hw.1 hw.2
+  · have hmapa' : env.mapped a = false := by simpa using hmapa
+    rw [hn]
+    simp only [hmapa', Bool.not_false, if_true, regionFwd, hmap0]
+
+/-- **the naive forward search is the region-level search** over the same regions. The naive loop
+never asks whether address 0 is mapped (its cache starts at 0), hence the side condition. -/
+theorem findNextSimple_eq_region (env : MapEnv) (henv : env.ok) (s : Spec) (hs : s.ok)
+    (hgran : 2 ^ s.logRegion ∣ env.gran) (m : Mem) (a limit : Nat) (hlim : 0 < limit)
+    (hend : alignUp (a + limit) (2 ^ s.logRegion) < 2 ^ 64)
+    (h0 : env.mapped a = true ∨ 2 ^ s.logRegion ≤ a) :
+    findNextSimple env s m a limit =
+      regionFwd env s m ((a + limit + 2 ^ s.logRegion - 1) / 2 ^ s.logRegion - a / 2 ^ s.logRegion) (a / 2 ^ s.logRegion) := by
+  have hR := Nat.two_pow_pos s.logRegion
+  obtain ⟨b1, b2, b3, b4, b5, b6⟩ := next_bounds a limit s.logRegion hlim
+  have hmap0 := region_block env henv s.logRegion hgran a
+  rw [b2] at hend
+  have hr0 : 2 ^ s.logRegion ≤ a → 1 ≤ a / 2 ^ s.logRegion := fun h => (Nat.le_div_iff_mul_le hR).2 (by omega)
+  generalize a / 2 ^ s.logRegion = r0 at *
+  generalize (a + limit + 2 ^ s.logRegion - 1) / 2 ^ s.logRegion = r1 at *
+  unfold findNextSimple
+  simp only
+  rw [b1]
+  have e : r0 + (r1 - r0) = r1 := by omega
+  apply findNextSimpleLoop_eq env henv s hs m (a + limit) (r1 - r0) _ r0 0 b6
+  · rw [e]; omega
+  · intro q q1 q2; exact b5 q (by omega)
+  · rw [e]; omega
+  · intro x x1 x2
+    have hx : x = 0 := by omega
+    subst hx
+    rcases h0 with h | h
+    · have : r0 * 2 ^ s.logRegion = 0 := by omega
+      rw [this] at hmap0
+      rw [hmap0]; exact h
+    · have := hr0 h
+      have := Nat.mul_le_mul_right (2 ^ s.logRegion) this
+      omega
+
+
+/-- **C22 (forward search, fast = naive)**: under `MapConsistent` on the searched regions
+`⌊a/R⌋ … ⌈(a+limit)/R⌉ − 1` the word-at-a-time search and the region-by-region search return the same.
+Side conditions (all true of the real layout): granules are multiples of 8 bytes and of the region size and
+mapped-ness is per granule (`env.ok`, `hgran`); the metadata table does not start at address 0 and is
+aligned to the field size; sub-byte fields are not wider than their region is long; no address wraps;
+the search does not start in an unmapped region at address 0 (the naive loop never asks whether
+address 0 is mapped — see `findNext_region0_witness`). -/
+theorem findNext_fast_eq_simple (env : MapEnv) (henv : env.ok) (s : Spec) (hs : s.ok)
+    (hal : s.start % 2 ^ (s.logBits - 3) = 0) (hlr : s.logBits < 3 → s.logBits ≤ s.logRegion) (hst : 0 < s.start)
+    (hgran : 2 ^ s.logRegion ∣ env.gran) (m : Mem) (hm : ByteMem m) (a limit : Nat) (hlim : 0 < limit)
+    (hend : alignUp (a + limit) (2 ^ s.logRegion) < 2 ^ 64)
+    (h0 : env.mapped a = true ∨ 2 ^ s.logRegion ≤ a)
+    (hmc : MapConsistent env s m (a / 2 ^ s.logRegion) ((a + limit + 2 ^ s.logRegion - 1) / 2 ^ s.logRegion) true) :
+    findNextFast env s m a limit = findNextSimple env s m a limit := by
+  rw [findNextFast_eq_region env henv s hs hal hlr hst hgran m hm a limit hlim hend hmc,
+    findNextSimple_eq_region env henv s hs hgran m a limit hlim hend h0]
+
+/-- the public entry never trips its `assert_eq!(fast, naive)`. -/
+theorem findNext_public (debug : Bool) (env : MapEnv) (henv : env.ok) (s : Spec) (hs : s.ok)
+    (hal : s.start % 2 ^ (s.logBits - 3) = 0) (hlr : s.logBits < 3 → s.logBits ≤ s.logRegion) (hst : 0 < s.start)
+    (hgran : 2 ^ s.logRegion ∣ env.gran) (m : Mem) (hm : ByteMem m) (a limit : Nat) (hlim : 0 < limit)
+    (hend : alignUp (a + limit) (2 ^ s.logRegion) < 2 ^ 64)
+    (h0 : env.mapped a = true ∨ 2 ^ s.logRegion ≤ a)
+    (hmc : MapConsistent env s m (a / 2 ^ s.logRegion) ((a + limit + 2 ^ s.logRegion - 1) / 2 ^ s.logRegion) true) :
+    findNext debug env s m a limit = some (findNextFast env s m a limit) := by
+  have h := findNext_fast_eq_simple env henv s hs hal hlr hst hgran m hm a limit hlim hend h0 hmc
+  have hl : (limit == 0) = false := by simp; omega
+  unfold findNext
+  simp [hl, h]
+
+/-- **C22 (forward search, specification)**: the result is the least region start `x ≥ ⌊a⌋` with a
+non-zero field and `x < a + limit`, provided no data region from `⌊a⌋` up to and including `x` is
+unmapped; otherwise nothing. -/
+theorem findNext_spec (env : MapEnv) (henv : env.ok) (s : Spec) (hs : s.ok)
+    (hal : s.start % 2 ^ (s.logBits - 3) = 0) (hlr : s.logBits < 3 → s.logBits ≤ s.logRegion) (hst : 0 < s.start)
+    (hgran : 2 ^ s.logRegion ∣ env.gran) (m : Mem) (hm : ByteMem m) (a limit : Nat) (hlim : 0 < limit)
+    (hend : alignUp (a + limit) (2 ^ s.logRegion) < 2 ^ 64)
+    (hmc : MapConsistent env s m (a / 2 ^ s.logRegion) ((a + limit + 2 ^ s.logRegion - 1) / 2 ^ s.logRegion) true)
+    (x : Nat) :
+    findNextFast env s m a limit = some x ↔
+      (x % 2 ^ s.logRegion = 0 ∧ alignDown a (2 ^ s.logRegion) ≤ x ∧ x < a + limit ∧ load s m x ≠ 0 ∧
+        (∀ y, alignDown a (2 ^ s.logRegion) ≤ y → y < x → y % 2 ^ s.logRegion = 0 → load s m y = 0) ∧
+        (∀ y, alignDown a (2 ^ s.logRegion) ≤ y → y ≤ x → y % 2 ^ s.logRegion = 0 → env.mapped y = true)) := by
+  have hR := Nat.two_pow_pos s.logRegion
+  rw [findNextFast_eq_region env henv s hs hal hlr hst hgran m hm a limit hlim hend hmc, regionFwd_some_iff]
+  obtain ⟨b1, b2, b3, b4, b5, b6⟩ := next_bounds a limit s.logRegion hlim
+  rw [b2] at hend
+  rw [b1]
+  generalize a / 2 ^ s.logRegion = r0 at *
+  generalize (a + limit + 2 ^ s.logRegion - 1) / 2 ^ s.logRegion = r1 at *
+  have hld : ∀ q, q < r1 → load s m (q * 2 ^ s.logRegion) = absArr m s q := fun q hq =>
+    load_region s hs m q (by have := Nat.mul_lt_mul_of_pos_right hq hR; omega)
+  constructor
+  · rintro ⟨r', q1, q2, rfl, q4, q5, q6⟩
+    have hr' : r' < r1 := by omega
+    refine ⟨Nat.mul_mod_left .., Nat.mul_le_mul_right _ q1, b5 r' hr', by rw [hld r' hr']; exact q4, ?_, ?_⟩
+    · intro y y1 y2 y3
+      obtain ⟨q, rfl⟩ : ∃ q, y = q * 2 ^ s.logRegion := ⟨_, (aligned_eq y s.logRegion y3).symm⟩
+      have c1 := Nat.le_of_mul_le_mul_right y1 hR
+      have c2 := Nat.lt_of_mul_lt_mul_right y2
+      rw [hld q (by omega)]; exact q5 q c1 c2
+    · intro y y1 y2 y3
+      obtain ⟨q, rfl⟩ : ∃ q, y = q * 2 ^ s.logRegion := ⟨_, (aligned_eq y s.logRegion y3).symm⟩
+      exact q6 q (Nat.le_of_mul_le_mul_right y1 hR) (Nat.le_of_mul_le_mul_right y2 hR)
+  · rintro ⟨x1, x2, x3, x4, x5, x6⟩
+    obtain ⟨r', rfl⟩ : ∃ q, x = q * 2 ^ s.logRegion := ⟨_, (aligned_eq x s.logRegion x1).symm⟩
+    have c1 := Nat.le_of_mul_le_mul_right x2 hR
+    have c2 : r' < r1 := by
+      apply Nat.lt_of_mul_lt_mul_right (a := 2 ^ s.logRegion); omega
+    refine ⟨r', c1, by omega, rfl, by rw [← hld r' c2]; exact x4, fun q d1 d2 => ?_, fun q d1 d2 => ?_⟩
+    · rw [← hld q (by omega)]
+      exact x5 _ (Nat.mul_le_mul_right _ d1) (Nat.mul_lt_mul_of_pos_right d2 hR) (Nat.mul_mod_left ..)
+    · exact x6 _ (Nat.mul_le_mul_right _ d1) (Nat.mul_le_mul_right _ d2) (Nat.mul_mod_left ..)
+
+/-- the side condition `h0` cannot be dropped from the *model*: nothing mapped, origin in the region at
+address 0 whose field is non-zero — the fast version asks `is_mapped(3)` and gives up, the naive loop's
+cache (`mapped_chunk = 0`) skips the question for cursor 0. (No heap contains address 0.) -/
+theorem findNext_region0_witness :
+    let env : MapEnv := { mapped := fun _ => false, gran := 64 }
+    let s : Spec := { start := 1024, logBits := 0, logRegion := 3 }
+    let m : Mem := fun x => if x = 1024 then 1 else 0
+    findNextFast env s m 3 8 = none ∧ findNextSimple env s m 3 8 = some 0 := by
+  decide
+
+/-- the hypotheses of the forward theorems are satisfiable by a non-trivial state: data `[0,128)` mapped,
+`[128, 1024)` not, metadata (from 1024) mapped, the bit of region 10 (address 80) set; searching from 20
+over 200 bytes crosses the unmapped chunk boundary at region 16. -/
+example :
+    let env : MapEnv := { mapped := fun x => decide (x < 128) || decide (1024 ≤ x), gran := 64 }
+    let s : Spec := { start := 1024, logBits := 0, logRegion := 3 }
+    let m : Mem := fun x => if x = 1025 then 4 else 0
+    env.ok ∧ s.ok ∧ s.start % 2 ^ (s.logBits - 3) = 0 ∧ (s.logBits < 3 → s.logBits ≤ s.logRegion) ∧ 0 < s.start ∧
+    2 ^ s.logRegion ∣ env.gran ∧ ByteMem m ∧ alignUp (20 + 200) (2 ^ s.logRegion) < 2 ^ 64 ∧
+    MapConsistent env s m (20 / 2 ^ s.logRegion) ((20 + 200 + 2 ^ s.logRegion - 1) / 2 ^ s.logRegion) true ∧
+    findNextFast env s m 20 200 = some 80 ∧ findNextFast env s m 100 200 = none := by
+  intro env s m
+  refine ⟨⟨by decide, by decide, ?_⟩, by decide, by decide, by decide, by decide, by decide, ?_, by decide, ?_, by decide, by decide⟩
+  · intro x y h
+    show (decide (x < 128) || decide (1024 ≤ x)) = (decide (y < 128) || decide (1024 ≤ y))
+    have h' : x / 64 = y / 64 := h
+    have e1 : (x < 128) ↔ (y < 128) := by omega
+    have e2 : (1024 ≤ x) ↔ (1024 ≤ y) := by omega
+    simp [e1, e2]
+  · intro x; show (if x = 1025 then 4 else 0) < 256; split <;> omega
+  · have hr : (20 / 2 ^ s.logRegion) = 2 := by decide
+    have hr1 : ((20 + 200 + 2 ^ s.logRegion - 1) / 2 ^ s.logRegion) = 28 := by decide
+    rw [hr, hr1]
+    have hfb : ∀ r, fieldBase s r = 8192 + r := by intro r; show 8 * 1024 + r * 2 ^ 0 = _; omega
+    constructor
+    · intro r _ _ _ p hp
+      obtain ⟨p1, p2⟩ := hp
+      rw [hfb] at p1
+      show (decide (p / 8 < 128) || decide (1024 ≤ p / 8)) = true
+      have : 1024 ≤ p / 8 := by omega
+      simp [this]
+    · intro r r' a1 a2 a3 a4 a5 hun p hp _
+      obtain ⟨p1, p2⟩ := hp
+      rw [hfb] at p1 p2
+      have p2' : p < 8192 + r' + 1 := p2
+      have a5' : r ≤ r' := a5
+      have hun' : (decide (r * 8 < 128) || decide (1024 ≤ r * 8)) = false := hun
+      have hr16 : 16 ≤ r := by
+        simp at hun'; omega
+      show (if p / 8 = 1025 then 4 else 0).testBit (p % 8) = false
+      have : p / 8 ≠ 1025 := by omega
+      simp [this]
+
+/-! # the backward search: fast = naive = specification -/
+
+/-- one in-byte step of the backward search (`find_last_non_zero_bit::<u8>` on a mapped byte). -/
+theorem byte_bwd (env : MapEnv) (m : Mem) (c sb eb : Nat) (hmc : env.mapped c = true) (h1 : sb < eb) (h2 : eb ≤ 8) :
+    match findLastBit 8 (m c) sb eb with
+    | some bit => bit < 8 ∧ ∀ n, eb - sb ≤ n → n ≤ 8 * c + eb → bwdSearch env m n (8 * c + eb) = .found (8 * c + bit)
+    | none => bwdSearch env m (eb - sb) (8 * c + eb) = .notFound := by
+  have hspec := findLastBit_spec 8 (m c) sb eb (Nat.le_of_lt h1) h2 (by omega)
+  cases h : findLastBit 8 (m c) sb eb with
+  | some bit =>
+    rw [h] at hspec
+    obtain ⟨a1, a2, a3, a4⟩ := hspec
+    refine ⟨by omega, fun n hn hn2 => ?_⟩
+    apply bwdSearch_hit env m n _ _ hn2 (by omega) (by omega)
+    · intro p p1 p2
+      have e1 : p / 8 = c := by omega
+      refine ⟨by rw [e1]; exact hmc, ?_⟩
+      unfold bitAt; rw [e1]; exact a4 (p % 8) (by omega) (by omega)
+    · have e1 : (8 * c + bit) / 8 = c := by omega
+      rw [e1]; exact hmc
+    · rw [bitAt_mk m c bit (by omega)]; exact a3
+  | none =>
+    rw [h] at hspec
+    apply bwdSearch_clear _ _ _ _ (by omega)
+    intro p p1 p2
+    have e1 : p / 8 = c := by omega
+    refine ⟨by rw [e1]; exact hmc, ?_⟩
+    unfold bitAt; rw [e1]; exact hspec (p % 8) (by omega) (by omega)
+
+/-- one word step of the backward search (`find_last_non_zero_bit::<usize>` on an aligned, mapped word). -/
+theorem word_bwd (env : MapEnv) (henv : env.ok) (m : Mem) (hm : ByteMem m) (c : Nat) (hc8 : c % 8 = 0)
+    (hmc : env.mapped c = true) :
+    (readLE m c 8 = 0 → bwdSearch env m 64 (8 * c + 64) = .notFound) ∧
+    (readLE m c 8 ≠ 0 → ∃ bit, findLastBit 64 (readLE m c 8) 0 64 = some bit ∧ bit < 64 ∧
+      ∀ n, 64 ≤ n → n ≤ 8 * c + 64 → bwdSearch env m n (8 * c + 64) = .found (8 * c + bit)) := by
+  have hmap : ∀ p, 8 * c ≤ p → p < 8 * c + 64 → env.mapped (p / 8) = true := by
+    intro p p1 p2
+    have : p / 8 = c + (p / 8 - c) := by omega
+    rw [this, word_block env henv c _ hc8 (by omega)]; exact hmc
+  have hspec := findLastBit_spec 64 (readLE m c 8) 0 64 (by omega) (by omega) (by omega)
+  constructor
+  · intro h0
+    apply bwdSearch_clear _ _ _ _ (by omega)
+    intro p p1 p2
+    refine ⟨hmap p (by omega) p2, ?_⟩
+    have := testBit_readLE8 m hm c (p - 8 * c) (by omega)
+    have e : 8 * c + (p - 8 * c) = p := by omega
+    rw [e, h0] at this
+    simpa using this.symm
+  · intro hne
+    cases h : findLastBit 64 (readLE m c 8) 0 64 with
+    | none =>
+      rw [h] at hspec
+      exfalso; apply hne
+      apply Nat.eq_of_testBit_eq
+      intro i
+      rw [Nat.zero_testBit]
+      by_cases hi : i < 64
+      · exact hspec i (by omega) hi
+      · exact Nat.testBit_lt_two_pow (Nat.lt_of_lt_of_le (readLE8_lt m hm c) (Nat.pow_le_pow_right (by omega) (by omega)))
+    | some bit =>
+      rw [h] at hspec
+      obtain ⟨a1, a2, a3, a4⟩ := hspec
+      refine ⟨bit, rfl, a2, fun n hn hn2 => ?_⟩
+      apply bwdSearch_hit env m n _ _ hn2 (by omega) (by omega)
+      · intro p p1 p2
+        refine ⟨hmap p (by omega) p2, ?_⟩
+        have := testBit_readLE8 m hm c (p - 8 * c) (by omega)
+        have e : 8 * c + (p - 8 * c) = p := by omega
+        rw [e] at this
+        rw [← this]; exact a4 _ (by omega) (by omega)
+      · exact hmap _ (by omega) (by omega)
+      · rw [← testBit_readLE8 m hm c bit a2]; exact a3
+
+/-- the mapped-chunk check of the backward loops. -/
+theorem chkBwd (env : MapEnv) (henv : env.ok) (cur grain : Nat)
+    (hc : ∀ x, grain ≤ x → x ≤ cur → env.mapped x = true) :
+    ((if cur < grain then (if env.mapped cur then some (alignDown cur env.gran) else none) else some grain) = none ∧
+      env.mapped cur = false) ∨
+    (∃ g', (if cur < grain then (if env.mapped cur then some (alignDown cur env.gran) else none) else some grain) = some g' ∧
+      env.mapped cur = true ∧ ∀ x, g' ≤ x → x ≤ cur → env.mapped x = true) := by
+  by_cases hg : cur < grain
+  · by_cases hmp : env.mapped cur = true
+    · refine Or.inr ⟨alignDown cur env.gran, by simp only [hg, hmp, if_true], hmp, fun x a b => ?_⟩
+      rw [alignDown_block env henv _ x a b, hmp]
+    · have hmp' : env.mapped cur = false := by simpa using hmp
+      exact Or.inl ⟨by simp [hg, hmp'], hmp'⟩
+  · exact Or.inr ⟨grain, by simp only [hg, if_false], hc _ (by omega) (Nat.le_refl _), hc⟩
+
+/-- **`find_last_non_zero_bit_in_metadata_bytes`** is the position-level backward search. -/
+theorem findLastInBytesLoop_eq (env : MapEnv) (henv : env.ok) (m : Mem) (hm : ByteMem m) (S : Nat) :
+    ∀ fuel cur grain, S ≤ cur → cur - S ≤ fuel →
+    (∀ x, grain ≤ x → x < cur → env.mapped x = true) →
+    findLastInBytesLoop env m S fuel cur grain = (bwdSearch env m (8 * (cur - S)) (8 * cur)).toFind := by
+  intro fuel
+  induction fuel with
+  | zero =>
+    intro cur grain h1 h2 _
+    have : cur - S = 0 := by omega
+    simp [findLastInBytesLoop, this, bwdSearch, PosRes.toFind]
+  | succ f ih =>
+    intro cur grain h1 h2 hc
+    simp only [findLastInBytesLoop]
+    by_cases hlt : cur > S
+    · simp only [hlt, not_true_eq_false, if_false]
+      by_cases hstep : cur % 8 = 0 ∧ cur - 8 ≥ S ∧ cur ≥ 8
+      · simp only [hstep, and_self, if_true]
+        obtain ⟨c, rfl⟩ : ∃ c, cur = c + 8 := ⟨cur - 8, by omega⟩
+        have hc8 : c % 8 = 0 := by omega
+        have hcS : S ≤ c := by omega
+        have esplit : 8 * (c + 8 - S) = 64 + 8 * (c - S) := by omega
+        have h64 : 64 ≤ 8 * (c + 8 - S) := by omega
+        have hle : 8 * (c + 8 - S) ≤ 8 * c + 64 := by omega
+        have hfuel : c - S ≤ f := by omega
+        have e8 : 8 * (c + 8) = 8 * c + 64 := by omega
+        have e8' : 8 * c + 64 - 64 = 8 * c := by omega
+        simp only [Nat.add_sub_cancel]
+        rcases chkBwd env henv c grain (fun x a b => hc x a (by omega)) with ⟨e, hmp⟩ | ⟨g', e, hmp, hv⟩
+        · rw [e]
+          have hq : (8 * c + 64 - 1) / 8 = c + 7 := by omega
+          rw [e8, bwdSearch_unm env m _ _ (8 * c + 64 - 1) hle (by omega) (by omega) (fun p a b => by omega)
+            (by rw [hq, word_block env henv c 7 hc8 (by omega)]; exact hmp)]
+          rfl
+        · rw [e]
+          obtain ⟨w0, w1⟩ := word_bwd env henv m hm c hc8 hmp
+          by_cases hv0 : readLE m c 8 = 0
+          · simp only [hv0, ne_eq, not_true_eq_false, if_false]
+            rw [ih c g' hcS hfuel (fun x a b => hv x a (Nat.le_of_lt b)), esplit, e8, bwdSearch_append, w0 hv0]
+            simp only [PosRes.orElse, e8']
+          · obtain ⟨bit, b1, b2, b3⟩ := w1 hv0
+            simp only [hv0, ne_eq, not_false_eq_true, if_true, b1]
+            rw [e8, b3 _ h64 hle]
+            simp only [PosRes.toFind, Nat.shiftRight_eq_div_pow, Nat.shiftLeft_eq]
+            have e1 : (8 * c + bit) / 8 = c + bit / 2 ^ 3 := by omega
+            have e2 : (8 * c + bit) % 8 = bit - bit / 2 ^ 3 * 2 ^ 3 := by omega
+            rw [e1, e2]
+      · have hs1 : (if cur % 8 = 0 ∧ cur - 8 ≥ S ∧ cur ≥ 8 then 8 else 1) = 1 := by simp only [hstep, if_false]
+        simp only [hs1, Nat.reduceEqDiff, if_false]
+        obtain ⟨c, rfl⟩ : ∃ c, cur = c + 1 := ⟨cur - 1, by omega⟩
+        have hcS : S ≤ c := by omega
+        have esplit : 8 * (c + 1 - S) = 8 + 8 * (c - S) := by omega
+        have hle : 8 * (c + 1 - S) ≤ 8 * c + 8 := by omega
+        have h8 : 8 ≤ 8 * (c + 1 - S) := by omega
+        have hfuel : c - S ≤ f := by omega
+        have e8 : 8 * (c + 1) = 8 * c + 8 := by omega
+        have e8' : 8 * c + 8 - 8 = 8 * c := by omega
+        simp only [Nat.add_sub_cancel]
+        rcases chkBwd env henv c grain (fun x a b => hc x a (by omega)) with ⟨e, hmp⟩ | ⟨g', e, hmp, hv⟩
+        · rw [e]
+          have hq : (8 * c + 8 - 1) / 8 = c := by omega
+          rw [e8, bwdSearch_unm env m _ _ (8 * c + 8 - 1) hle (by omega) (by omega) (fun p a b => by omega)
+            (by rw [hq]; exact hmp)]
+          rfl
+        · rw [e]
+          have hb := byte_bwd env m c 0 8 hmp (by omega) (by omega)
+          cases hfb : findLastBit 8 (m c) 0 8 with
+          | some bit =>
+            rw [hfb] at hb
+            obtain ⟨b1, b2⟩ := hb
+            rw [e8, b2 _ (by omega) hle]
+            simp only [PosRes.toFind]
+            have e1 : (8 * c + bit) / 8 = c := by omega
+            have e2 : (8 * c + bit) % 8 = bit := by omega
+            rw [e1, e2]
+          | none =>
+            rw [hfb] at hb
+            simp only [Nat.sub_zero] at hb
+            show findLastInBytesLoop env m S f c g' = _
+            rw [ih c g' hcS hfuel (fun x a b => hv x a (Nat.le_of_lt b)), esplit, e8, bwdSearch_append, hb]
+            simp only [PosRes.orElse, e8']
+    · have : cur - S = 0 := by omega
+      simp [hlt, this, bwdSearch, PosRes.toFind]
+
+/-- **`find_last_non_zero_bit_in_metadata_bits`** is the position-level backward search. -/
+theorem findLastInBits_eq (env : MapEnv) (m : Mem) (a sb eb : Nat) (h1 : sb < eb) (h2 : eb ≤ 8) :
+    findLastInBits env m a sb eb = (bwdSearch env m (eb - sb) (8 * a + eb)).toFind := by
+  unfold findLastInBits
+  by_cases hmp : env.mapped a = true
+  · simp only [hmp, Bool.not_true, Bool.false_eq_true, if_false]
+    have hb := byte_bwd env m a sb eb hmp h1 h2
+    cases hfb : findLastBit 8 (m a) sb eb with
+    | some bit =>
+      rw [hfb] at hb
+      obtain ⟨b1, b2⟩ := hb
+      rw [b2 _ (Nat.le_refl _) (by omega)]
+      simp only [PosRes.toFind]
+      have e1 : (8 * a + bit) / 8 = a := by omega
+      have e2 : (8 * a + bit) % 8 = bit := by omega
+      rw [e1, e2]
+    | none =>
+      rw [hfb] at hb
+      rw [hb]; rfl
+  · have hmp' : env.mapped a = false := by simpa using hmp
+    simp only [hmp', Bool.not_false, if_true]
+    have hq : (8 * a + eb - 1) / 8 = a := by omega
+    rw [bwdSearch_unm env m _ _ (8 * a + eb - 1) (by omega) (by omega) (by omega) (fun p x y => by omega) (by rw [hq]; exact hmp')]
+    rfl
+
+
+/-- arithmetic of the bounds of the backward search (`S = a - limit + 1`). -/
+theorem prev_bounds (a limit lr : Nat) (hlim : 0 < limit) (ha0 : 0 < a) :
+    alignDown a (2 ^ lr) = a / 2 ^ lr * 2 ^ lr ∧
+    a - limit + 1 ≤ a ∧
+    (a - limit + 1) / 2 ^ lr ≤ a / 2 ^ lr ∧
+    (a - limit + 1) / 2 ^ lr ≤ (a - limit + 1 + 2 ^ lr - 1) / 2 ^ lr ∧
+    (a - limit + 1 + 2 ^ lr - 1) / 2 ^ lr ≤ (a - limit + 1) / 2 ^ lr + 1 ∧
+    (∀ q, q * 2 ^ lr ≥ a - limit + 1 ↔ (a - limit + 1 + 2 ^ lr - 1) / 2 ^ lr ≤ q) ∧
+    a / 2 ^ lr * 2 ^ lr ≤ a ∧ a < (a / 2 ^ lr + 1) * 2 ^ lr ∧
+    a / 2 ^ lr + 1 - (a - limit + 1 + 2 ^ lr - 1) / 2 ^ lr ≤ limit / 2 ^ lr + 2 ∧
+    1 ≤ (a - limit + 1 + 2 ^ lr - 1) / 2 ^ lr := by
+  have hR := Nat.two_pow_pos lr
+  generalize 2 ^ lr = R at *
+  have hS : a - limit + 1 ≤ a := by omega
+  have hS1 : 1 ≤ a - limit + 1 := by omega
+  have hSl : a < a - limit + 1 + limit := by omega
+  generalize a - limit + 1 = S at *
+  have f1 : a / R * R ≤ a := Nat.div_mul_le_self a R
+  have f2 : a < a / R * R + R := Nat.lt_div_mul_add hR
+  have f3 : S / R * R ≤ S := Nat.div_mul_le_self _ R
+  have f4 : S < S / R * R + R := Nat.lt_div_mul_add hR
+  have f5 : (S + R - 1) / R * R ≤ S + R - 1 := Nat.div_mul_le_self _ R
+  have f6 : S + R - 1 < (S + R - 1) / R * R + R := Nat.lt_div_mul_add hR
+  have f7 : limit / R * R ≤ limit := Nat.div_mul_le_self _ R
+  have f8 : limit < limit / R * R + R := Nat.lt_div_mul_add hR
+  have g1 : S / R ≤ a / R := Nat.div_le_div_right hS
+  have g2 : S / R ≤ (S + R - 1) / R := Nat.div_le_div_right (by omega)
+  have g3 : (S + R - 1) / R ≤ S / R + 1 := by
+    apply Nat.le_of_lt_succ
+    apply (Nat.div_lt_iff_lt_mul hR).2
+    rw [Nat.succ_mul, Nat.add_mul, Nat.one_mul]; omega
+  have g4 : 1 ≤ (S + R - 1) / R := (Nat.le_div_iff_mul_le hR).2 (by omega)
+  have g5 : (a / R + 1) * R = a / R * R + R := by rw [Nat.add_mul, Nat.one_mul]
+  refine ⟨alignDown_eq_div a R, hS, g1, g2, g3, ?_, f1, by omega, ?_, g4⟩
+  · intro q
+    generalize (S + R - 1) / R = t at *
+    constructor
+    · intro h
+      apply Nat.le_of_not_lt
+      intro hlt
+      have := Nat.mul_le_mul_right R (Nat.succ_le_of_lt hlt)
+      rw [Nat.succ_mul] at this
+      omega
+    · intro h
+      have := Nat.mul_le_mul_right R h
+      omega
+  · generalize a / R = ra at *
+    generalize (S + R - 1) / R = t at *
+    generalize limit / R = L at *
+    by_cases ht : t ≤ ra
+    · have e : (ra - t) * R = ra * R - t * R := Nat.sub_mul ..
+      have : (ra - t) * R ≤ L * R + R := by
+        have := Nat.mul_le_mul_right R ht
+        omega
+      have e2 : (L + 1) * R = L * R + R := by rw [Nat.add_mul, Nat.one_mul]
+      rw [← e2] at this
+      have := Nat.le_of_mul_le_mul_right this hR
+      omega
+    · omega
+
+/-- the region-level effect of the final range filter of `find_prev_non_zero_value_fast`: the fast
+version also looks at the region cut by `S = a - limit + 1` and then discards it. -/
+theorem regionBwd_filter (env : MapEnv) (s : Spec) (m : Mem) (rs rs' ra S a : Nat)
+    (h1 : rs ≤ rs') (h2 : rs' ≤ rs + 1) (h3 : rs ≤ ra) (hrs' : 1 ≤ rs')
+    (h5 : ∀ q, q * 2 ^ s.logRegion ≥ S ↔ rs' ≤ q) (h6 : ra * 2 ^ s.logRegion ≤ a)
+    (hz : absArr m s ra = 0) (hmp : env.mapped (ra * 2 ^ s.logRegion) = true) :
+    ((regionBwd env s m (ra - rs) ra).map fun x => alignDown x (2 ^ s.logRegion)).filter
+      (fun x => decide (x ≥ S) && decide (x < a)) = regionBwd env s m (ra + 1 - rs') (ra + 1) := by
+  have hR := Nat.two_pow_pos s.logRegion
+  have hiffL := regionBwd_some_iff env s m (ra - rs) ra
+  have hiffR := regionBwd_some_iff env s m (ra + 1 - rs') (ra + 1)
+  cases hL : regionBwd env s m (ra - rs) ra with
+  | none =>
+    symm
+    apply Option.eq_none_iff_forall_ne_some.2
+    intro x hx
+    obtain ⟨r', a1, a2, a3, a4, a5, a6⟩ := (hiffR x (by omega)).1 hx
+    have hne : r' ≠ ra := by intro e; rw [e] at a4; exact a4 hz
+    have : regionBwd env s m (ra - rs) ra = some x :=
+      (hiffL x (by omega)).2 ⟨r', by omega, by omega, a3, a4, fun q q1 q2 => a5 q q1 (by omega), fun q q1 q2 => a6 q q1 (by omega)⟩
+    rw [hL] at this; cases this
+  | some y =>
+    obtain ⟨r', a1, a2, a3, a4, a5, a6⟩ := (hiffL y (by omega)).1 hL
+    subst a3
+    have hlt : r' * 2 ^ s.logRegion < a := by
+      have := Nat.mul_lt_mul_of_pos_right a2 hR
+      omega
+    by_cases hge : rs' ≤ r'
+    · have hS : r' * 2 ^ s.logRegion ≥ S := (h5 r').2 hge
+      have : regionBwd env s m (ra + 1 - rs') (ra + 1) = some (r' * 2 ^ s.logRegion) :=
+        (hiffR _ (by omega)).2 ⟨r', by omega, by omega, rfl, a4, fun q q1 q2 => by
+          by_cases e : q = ra
+          · rw [e]; exact hz
+          · exact a5 q q1 (by omega), fun q q1 q2 => by
+          by_cases e : q = ra
+          · rw [e]; exact hmp
+          · exact a6 q q1 (by omega)⟩
+      rw [this]
+      simp [alignDown_mul, hS, hlt]
+    · have hS : ¬ r' * 2 ^ s.logRegion ≥ S := fun h => hge ((h5 r').1 h)
+      have hnone : regionBwd env s m (ra + 1 - rs') (ra + 1) = none := by
+        apply Option.eq_none_iff_forall_ne_some.2
+        intro x hx
+        obtain ⟨r'', c1, c2, c3, c4, c5, c6⟩ := (hiffR x (by omega)).1 hx
+        by_cases e : r'' = ra
+        · rw [e] at c4; exact c4 hz
+        · exact c4 (a5 r'' (by omega) (by omega))
+      rw [hnone]
+      simp [alignDown_mul, hS]
+
+
+/-- **the naive backward search is the region-level search** over the regions `⌊a/R⌋` down to
+`⌈(a-limit+1)/R⌉` (those whose start is inside the limit). -/
+theorem findPrevSimple_eq_region (env : MapEnv) (henv : env.ok) (s : Spec) (hs : s.ok)
+    (m : Mem) (a limit : Nat) (hlim : 0 < limit) (ha0 : 0 < a) (ha1 : a + 1 < 2 ^ 64) :
+    findPrevSimple env s m a limit =
+      regionBwd env s m (a / 2 ^ s.logRegion + 1 - (a - limit + 1 + 2 ^ s.logRegion - 1) / 2 ^ s.logRegion)
+        (a / 2 ^ s.logRegion + 1) := by
+  obtain ⟨p1, p2, p3, p4, p4', p5, p6, p6', p7, p9⟩ := prev_bounds a limit s.logRegion hlim ha0
+  unfold findPrevSimple
+  simp only
+  rw [p1]
+  generalize a / 2 ^ s.logRegion = ra at *
+  generalize (a - limit + 1 + 2 ^ s.logRegion - 1) / 2 ^ s.logRegion = t at *
+  generalize (a - limit + 1) / 2 ^ s.logRegion = rs at *
+  apply findPrevSimpleLoop_eq env henv s hs m _ (ra + 1 - t) _ ra (2 ^ 64 - 1) p7 (by omega) (by omega)
+  · intro q q1 q2; exact (p5 q).2 (by omega)
+  · intro h; have := (p5 _).1 h; omega
+  · intro x x1 x2; omega
+
+/-- **the fast backward search is the region-level search** over the same regions. -/
+theorem findPrevFast_eq_region (env : MapEnv) (henv : env.ok) (s : Spec) (hs : s.ok)
+    (hal : s.start % 2 ^ (s.logBits - 3) = 0) (hlr : s.logBits < 3 → s.logBits ≤ s.logRegion)
+    (hgran : 2 ^ s.logRegion ∣ env.gran) (m : Mem) (hm : ByteMem m) (a limit : Nat) (hlim : 0 < limit)
+    (ha0 : 0 < a) (ha1 : a + 1 < 2 ^ 64) (hmeta : metaAddr s a < 2 ^ 64 - 1)
+    (hmc : MapConsistent env s m ((a - limit + 1) / 2 ^ s.logRegion) (a / 2 ^ s.logRegion + 1) false) :
+    findPrevFast env s m a limit =
+      regionBwd env s m (a / 2 ^ s.logRegion + 1 - (a - limit + 1 + 2 ^ s.logRegion - 1) / 2 ^ s.logRegion)
+        (a / 2 ^ s.logRegion + 1) := by
+  have hR := Nat.two_pow_pos s.logRegion
+  obtain ⟨p1, p2, p3, p4, p4', p5, p6, p6', p7, p9⟩ := prev_bounds a limit s.logRegion hlim ha0
+  have hmap0 := region_block env henv s.logRegion hgran a
+  have hra : a >>> s.logRegion = a / 2 ^ s.logRegion := Nat.shiftRight_eq_div_pow ..
+  have hrs : (a - limit + 1) >>> s.logRegion = (a - limit + 1) / 2 ^ s.logRegion := Nat.shiftRight_eq_div_pow ..
+  have ha64 : a < 2 ^ 64 := by omega
+  have hlabs : load s m a = absArr m s (a / 2 ^ s.logRegion) := by rw [load_eq_absArr s hs m a ha64, hra]
+  obtain ⟨e1, e2, c1, c2, ho⟩ := bulk_interval s hs (a - limit + 1) (a - (a - limit + 1)) (by omega)
+  have eE : a - limit + 1 + (a - (a - limit + 1)) = a := by omega
+  rw [eE] at e2 c2 ho
+  rw [hrs] at e1
+  rw [hra] at e2
+  unfold findPrevFast
+  generalize a / 2 ^ s.logRegion = ra at *
+  generalize (a - limit + 1 + 2 ^ s.logRegion - 1) / 2 ^ s.logRegion = t at *
+  generalize (a - limit + 1) / 2 ^ s.logRegion = rs at *
+  generalize hS : a - limit + 1 = S at *
+  by_cases hmapa : env.mapped a = true
+  · simp only [hmapa, Bool.not_true, Bool.false_eq_true, if_false]
+    rw [hmapa] at hmap0
+    by_cases hload : load s m a ≠ 0
+    · rw [if_pos hload, p1]
+      rw [hlabs] at hload
+      by_cases hin : ra * 2 ^ s.logRegion ≥ S
+      · have := (p5 ra).1 hin
+        obtain ⟨k, hk⟩ : ∃ k, ra + 1 - t = k + 1 := ⟨ra - t, by omega⟩
+        rw [if_pos hin, hk]
+        simp only [regionBwd, Nat.add_sub_cancel, hmap0]
+        simp [hload]
+      · have : ¬ t ≤ ra := fun h => hin ((p5 ra).2 h)
+        have hk : ra + 1 - t = 0 := by omega
+        rw [if_neg hin, hk]; rfl
+    · rw [if_neg hload]
+      have hz : absArr m s ra = 0 := by rw [← hlabs]; simpa using hload
+      have ht := breakBitRange_partition _ _ _ _ c1 c2 ho
+      rw [e1, e2] at ht
+      rw [breakBitRange_backwards, findVisit_tiles_bwd env s m _ (fieldBase s ra) ?_ ht (Nat.le_refl _)]
+      · have e : ra - (ra - rs) = rs := by omega
+        rw [fieldBase_sub s rs ra p3,
+          bwd_fast_region env s hs hal hlr m hm (ra - rs) ra (by omega) (by omega)
+            (by rw [e]; exact hmc.mono (Nat.le_refl _) (by omega))]
+        exact regionBwd_filter env s m rs t ra S a p4 p4' p3 p9 p5 p6 hz hmap0
+      · intro r hw hhi
+        have hfb : fieldBase s ra < 8 * (2 ^ 64 - 1) := by omega
+        cases r with
+        | bytes st en =>
+          simp only [BBR.lo, BBR.hi, BBR.wf] at hw hhi ⊢
+          have e8 : 8 * en - 8 * st = 8 * (en - st) := by omega
+          rw [e8]
+          exact findLastInBytesLoop_eq env henv m hm st _ en (2 ^ 64 - 1) (Nat.le_of_lt hw) (by omega) (fun x a b => by omega)
+        | bits ad bs be =>
+          simp only [BBR.lo, BBR.hi, BBR.wf] at hw hhi ⊢
+          have e8 : 8 * ad + be - (8 * ad + bs) = be - bs := by omega
+          rw [e8]
+          exact findLastInBits_eq env m ad bs be hw.1 hw.2
+  · have hmapa' : env.mapped a = false := by simpa using hmapa
+    rw [hmapa'] at hmap0
+    simp only [hmapa', Bool.not_false, if_true]
+    by_cases hk0 : ra + 1 - t = 0
+    · rw [hk0]; rfl
+    · obtain ⟨k, hk⟩ : ∃ k, ra + 1 - t = k + 1 := ⟨ra - t, by omega⟩
+      rw [hk]
+      simp only [regionBwd, Nat.add_sub_cancel, hmap0, Bool.not_false, if_true]
+
+
+/-- **C22 (backward search, fast = naive)** for this tree's `find_prev_non_zero_value_fast` (whose quick
+check applies the search limit; the pinned version is `findPrev_own_region_defect`): under
+`MapConsistent` on the regions `⌊(a-limit+1)/R⌋ … ⌊a/R⌋` (searched downwards) the word-at-a-time search
+and the region-by-region search return the same. Side conditions as for the forward search; `0 < a` and
+`a + 1 < 2^64` keep `a - limit + 1` and the loops' initial cache (`usize::MAX`) meaningful, `hmeta` says
+the metadata of `a` does not sit at the very last address. -/
+theorem findPrev_fast_eq_simple (env : MapEnv) (henv : env.ok) (s : Spec) (hs : s.ok)
+    (hal : s.start % 2 ^ (s.logBits - 3) = 0) (hlr : s.logBits < 3 → s.logBits ≤ s.logRegion)
+    (hgran : 2 ^ s.logRegion ∣ env.gran) (m : Mem) (hm : ByteMem m) (a limit : Nat) (hlim : 0 < limit)
+    (ha0 : 0 < a) (ha1 : a + 1 < 2 ^ 64) (hmeta : metaAddr s a < 2 ^ 64 - 1)
+    (hmc : MapConsistent env s m ((a - limit + 1) / 2 ^ s.logRegion) (a / 2 ^ s.logRegion + 1) false) :
+    findPrevFast env s m a limit = findPrevSimple env s m a limit := by
+  rw [findPrevFast_eq_region env henv s hs hal hlr hgran m hm a limit hlim ha0 ha1 hmeta hmc,
+    findPrevSimple_eq_region env henv s hs m a limit hlim ha0 ha1]
+
+/-- the public entry never trips its `assert_eq!(fast, naive)`. -/
+theorem findPrev_public (debug : Bool) (env : MapEnv) (henv : env.ok) (s : Spec) (hs : s.ok)
+    (hal : s.start % 2 ^ (s.logBits - 3) = 0) (hlr : s.logBits < 3 → s.logBits ≤ s.logRegion)
+    (hgran : 2 ^ s.logRegion ∣ env.gran) (m : Mem) (hm : ByteMem m) (a limit : Nat) (hlim : 0 < limit)
+    (ha0 : 0 < a) (ha1 : a + 1 < 2 ^ 64) (hmeta : metaAddr s a < 2 ^ 64 - 1)
+    (hmc : MapConsistent env s m ((a - limit + 1) / 2 ^ s.logRegion) (a / 2 ^ s.logRegion + 1) false) :
+    findPrev debug env s m a limit = some (findPrevFast env s m a limit) := by
+  have h := findPrev_fast_eq_simple env henv s hs hal hlr hgran m hm a limit hlim ha0 ha1 hmeta hmc
+  have hl : (limit == 0) = false := by simp; omega
+  unfold findPrev
+  simp [hl, h]
+
+/-- **C22 (backward search, specification)**: the result is the greatest region start `x` with
+`a - limit < x ≤ a` and a non-zero field, provided no data region from `x` up to `⌊a⌋` is unmapped;
+otherwise nothing. -/
+theorem findPrev_spec (env : MapEnv) (henv : env.ok) (s : Spec) (hs : s.ok)
+    (hal : s.start % 2 ^ (s.logBits - 3) = 0) (hlr : s.logBits < 3 → s.logBits ≤ s.logRegion)
+    (hgran : 2 ^ s.logRegion ∣ env.gran) (m : Mem) (hm : ByteMem m) (a limit : Nat) (hlim : 0 < limit)
+    (ha0 : 0 < a) (ha1 : a + 1 < 2 ^ 64) (hmeta : metaAddr s a < 2 ^ 64 - 1)
+    (hmc : MapConsistent env s m ((a - limit + 1) / 2 ^ s.logRegion) (a / 2 ^ s.logRegion + 1) false)
+    (x : Nat) :
+    findPrevFast env s m a limit = some x ↔
+      (x % 2 ^ s.logRegion = 0 ∧ a - limit + 1 ≤ x ∧ x ≤ a ∧ load s m x ≠ 0 ∧
+        (∀ y, x < y → y ≤ a → y % 2 ^ s.logRegion = 0 → load s m y = 0) ∧
+        (∀ y, x ≤ y → y ≤ a → y % 2 ^ s.logRegion = 0 → env.mapped y = true)) := by
+  have hR := Nat.two_pow_pos s.logRegion
+  obtain ⟨p1, p2, p3, p4, p4', p5, p6, p6', p7, p9⟩ := prev_bounds a limit s.logRegion hlim ha0
+  rw [findPrevFast_eq_region env henv s hs hal hlr hgran m hm a limit hlim ha0 ha1 hmeta hmc,
+    regionBwd_some_iff env s m _ _ x (by omega)]
+  generalize a / 2 ^ s.logRegion = ra at *
+  generalize (a - limit + 1 + 2 ^ s.logRegion - 1) / 2 ^ s.logRegion = t at *
+  generalize (a - limit + 1) / 2 ^ s.logRegion = rs at *
+  have hle : ∀ q, q * 2 ^ s.logRegion ≤ a → q ≤ ra := by
+    intro q hq
+    have : q * 2 ^ s.logRegion < (ra + 1) * 2 ^ s.logRegion := by omega
+    have := Nat.lt_of_mul_lt_mul_right this
+    omega
+  have hld : ∀ q, q ≤ ra → load s m (q * 2 ^ s.logRegion) = absArr m s q := fun q hq =>
+    load_region s hs m q (by have := Nat.mul_le_mul_right (2 ^ s.logRegion) hq; omega)
+  constructor
+  · rintro ⟨r', q1, q2, rfl, q4, q5, q6⟩
+    have hr' : r' ≤ ra := by omega
+    have hxa : r' * 2 ^ s.logRegion ≤ a := by have := Nat.mul_le_mul_right (2 ^ s.logRegion) hr'; omega
+    refine ⟨Nat.mul_mod_left .., (p5 r').2 (by omega), hxa, by rw [hld r' hr']; exact q4, ?_, ?_⟩
+    · intro y y1 y2 y3
+      obtain ⟨q, rfl⟩ : ∃ q, y = q * 2 ^ s.logRegion := ⟨_, (aligned_eq y s.logRegion y3).symm⟩
+      have c1 := Nat.lt_of_mul_lt_mul_right y1
+      have c2 := hle q y2
+      rw [hld q c2]; exact q5 q c1 (by omega)
+    · intro y y1 y2 y3
+      obtain ⟨q, rfl⟩ : ∃ q, y = q * 2 ^ s.logRegion := ⟨_, (aligned_eq y s.logRegion y3).symm⟩
+      exact q6 q (Nat.le_of_mul_le_mul_right y1 hR) (by have := hle q y2; omega)
+  · rintro ⟨x1, x2, x3, x4, x5, x6⟩
+    obtain ⟨r', rfl⟩ : ∃ q, x = q * 2 ^ s.logRegion := ⟨_, (aligned_eq x s.logRegion x1).symm⟩
+    have c1 := (p5 r').1 x2
+    have c2 := hle r' x3
+    refine ⟨r', by omega, by omega, rfl, by rw [← hld r' c2]; exact x4, fun q d1 d2 => ?_, fun q d1 d2 => ?_⟩
+    · have hq : q ≤ ra := by omega
+      have hqa : q * 2 ^ s.logRegion ≤ a := by have := Nat.mul_le_mul_right (2 ^ s.logRegion) hq; omega
+      rw [← hld q hq]
+      exact x5 _ (Nat.mul_lt_mul_of_pos_right d1 hR) hqa (Nat.mul_mod_left ..)
+    · have hq : q ≤ ra := by omega
+      have hqa : q * 2 ^ s.logRegion ≤ a := by have := Nat.mul_le_mul_right (2 ^ s.logRegion) hq; omega
+      exact x6 _ (Nat.mul_le_mul_right _ d1) hqa (Nat.mul_mod_left ..)
+
+/-- the hypotheses of the backward theorems are satisfiable by a non-trivial state: data `[128, 512)`
+mapped, `[0,128)` not, metadata (from 1024) mapped, the bit of region 20 (address 160) set; searching back
+from 300 over 250 bytes reaches the unmapped chunk below region 16. -/
+example :
+    let env : MapEnv := { mapped := fun x => (decide (128 ≤ x) && decide (x < 512)) || decide (1024 ≤ x), gran := 64 }
+    let s : Spec := { start := 1024, logBits := 0, logRegion := 3 }
+    let m : Mem := fun x => if x = 1026 then 16 else 0
+    env.ok ∧ s.ok ∧ s.start % 2 ^ (s.logBits - 3) = 0 ∧ (s.logBits < 3 → s.logBits ≤ s.logRegion) ∧
+    2 ^ s.logRegion ∣ env.gran ∧ ByteMem m ∧ metaAddr s 300 < 2 ^ 64 - 1 ∧
+    MapConsistent env s m ((300 - 250 + 1) / 2 ^ s.logRegion) (300 / 2 ^ s.logRegion + 1) false ∧
+    findPrevFast env s m 300 250 = some 160 ∧ findPrevFast env s m 150 140 = none ∧
+    findPrevSimple env s m 300 250 = some 160 := by
+  intro env s m
+  refine ⟨⟨by decide, by decide, ?_⟩, by decide, by decide, by decide, by decide, ?_, by decide, ?_, by decide, by decide, by decide⟩
+  · intro x y h
+    show ((decide (128 ≤ x) && decide (x < 512)) || decide (1024 ≤ x)) = ((decide (128 ≤ y) && decide (y < 512)) || decide (1024 ≤ y))
+    have h' : x / 64 = y / 64 := h
+    have e1 : (128 ≤ x) ↔ (128 ≤ y) := by omega
+    have e2 : (1024 ≤ x) ↔ (1024 ≤ y) := by omega
+    have e3 : (x < 512) ↔ (y < 512) := by omega
+    simp [e1, e2, e3]
+  · intro x; show (if x = 1026 then 16 else 0) < 256; split <;> omega
+  · have hr : ((300 - 250 + 1) / 2 ^ s.logRegion) = 6 := by decide
+    have hr1 : (300 / 2 ^ s.logRegion + 1) = 38 := by decide
+    rw [hr, hr1]
+    have hfb : ∀ r, fieldBase s r = 8192 + r := by intro r; show 8 * 1024 + r * 2 ^ 0 = _; omega
+    constructor
+    · intro r _ _ _ p hp
+      obtain ⟨p1, p2⟩ := hp
+      rw [hfb] at p1
+      show ((decide (128 ≤ p / 8) && decide (p / 8 < 512)) || decide (1024 ≤ p / 8)) = true
+      have : 1024 ≤ p / 8 := by omega
+      simp [this]
+    · intro r r' a1 a2 a3 a4 a5 hun p hp _
+      obtain ⟨p1, p2⟩ := hp
+      rw [hfb] at p1 p2
+      have p2' : p < 8192 + r' + 1 := p2
+      have a5' : r' ≤ r := a5
+      have hun' : ((decide (128 ≤ r * 8) && decide (r * 8 < 512)) || decide (1024 ≤ r * 8)) = false := hun
+      have hr16 : r < 16 := by
+        simp at hun'; omega
+      show (if p / 8 = 1026 then 16 else 0).testBit (p % 8) = false
+      have : p / 8 ≠ 1026 := by omega
+      simp [this]
+
+/-- outside the defect's case (`findPrev_own_region_defect`) the pinned and the repaired fast backward
+search are the same function. -/
+theorem findPrevFastOld_eq_fixed (env : MapEnv) (s : Spec) (m : Mem) (a limit : Nat)
+    (h : alignDown a (2 ^ s.logRegion) ≥ a - limit + 1 ∨ load s m a = 0) :
+    findPrevFastOld env s m a limit = findPrevFast env s m a limit := by
+  unfold findPrevFastOld findPrevFast
+  by_cases hmp : env.mapped a = true
+  · by_cases hl : load s m a ≠ 0
+    · have hge : alignDown a (2 ^ s.logRegion) ≥ a - limit + 1 := by
+        rcases h with h | h
+        · exact h
+        · exact absurd h hl
+      simp only [hmp, Bool.not_true, Bool.false_eq_true, if_false, hl, ne_eq, not_false_eq_true, if_true, hge]
+    · simp only [hmp, Bool.not_true, Bool.false_eq_true, if_false, hl, if_false]
+  · have hmp' : env.mapped a = false := by simpa using hmp
+    simp only [hmp', Bool.not_false, if_true]
+
+/-- **C22 (backward search, pinned code)**: the statement as first planned — the pinned
+`find_prev_non_zero_value_fast` agrees with the naive version whenever the own region's start is inside the
+limit or its field is zero (the complement is exactly `findPrev_own_region_defect`). -/
+theorem findPrevOld_fast_eq_simple (env : MapEnv) (henv : env.ok) (s : Spec) (hs : s.ok)
+    (hal : s.start % 2 ^ (s.logBits - 3) = 0) (hlr : s.logBits < 3 → s.logBits ≤ s.logRegion)
+    (hgran : 2 ^ s.logRegion ∣ env.gran) (m : Mem) (hm : ByteMem m) (a limit : Nat) (hlim : 0 < limit)
+    (ha0 : 0 < a) (ha1 : a + 1 < 2 ^ 64) (hmeta : metaAddr s a < 2 ^ 64 - 1)
+    (hmc : MapConsistent env s m ((a - limit + 1) / 2 ^ s.logRegion) (a / 2 ^ s.logRegion + 1) false)
+    (hside : alignDown a (2 ^ s.logRegion) ≥ a - limit + 1 ∨ load s m a = 0) :
+    findPrevFastOld env s m a limit = findPrevSimple env s m a limit := by
+  rw [findPrevFastOld_eq_fixed env s m a limit hside]
+  exact findPrev_fast_eq_simple env henv s hs hal hlr hgran m hm a limit hlim ha0 ha1 hmeta hmc
 
 end Mmtk.SideMeta
